@@ -9,21 +9,36 @@
 //
 // Targets
 //   predicate    PredicateFactory::GetPredicate(pattern, type)->Match(text) against a direct matcher
-//                for the small pattern grammar (literal, '.', '.*', the lone '*'), strings passed as
-//                views into short-lived storage
+//                for the small pattern grammar (literal, '.', '.*', the lone '*') and against a tree
+//                matcher for generated well-formed regular expressions with the other metacharacters
+//                (+ ? {n,m} [..] (..|..) \. ^ $); strings passed as views into short-lived storage
 //   views        0..4 views x 1..4 instruments on 1..3 meters: (1) ViewRegistry::FindViews hands out
 //                exactly the matching views in registration order (or one default view), (2) the
-//                streams at a reader are exactly those the matching views describe
-//   scope_rules  ordered rule lists (name-equals + scripted predicates) against scope identities for
-//                tracers, meters and loggers; first match decides; disabled => nothing exported
-//   identity     repeated GetTracer / GetMeter / GetLogger: same pointer iff same identity
+//                streams at a reader are exactly those the matching views describe - name,
+//                description, unit, type, point kind, monotonicity, attribute sets, sums, and for
+//                histograms the boundary list (the view's own, else the default list) and the bucket
+//                counts
+//   scope_rules  ordered rule lists (name-equals + scripted predicates over name / version / schema /
+//                scope attributes) against scope identities for tracers, meters and loggers (logger
+//                scopes carry attributes); the provider is built through every public constructor /
+//                factory overload; first match decides; disabled => nothing exported
+//   identity     repeated GetTracer / GetMeter / GetLogger (every construction path, every GetLogger
+//                overload, empty components as "" or as null views, typed attribute values): same
+//                pointer iff same identity
+//   async_view_filter_witness / async_hist_bounds_witness / logger_dup_attr_key_witness
+//                fixed cases (no generator involved) of one open finding and two defect candidates
 // Either-regions (the check accepts both outcomes, exact values on whichever side is taken):
 //   * a selector name with a '.' that is not followed by '*' against a text where "any character"
 //     and "literal dot" disagree (the selector is documented as a pattern, the statement also says
 //     "exact");
+//   * a selector name with further metacharacters against a name the regular expression describes
+//     (the exact reading says "no": no instrument has such a name); a name it does not describe must
+//     not be selected under either reading;
 //   * a meter selector version / schema against a meter that has no version / schema (the registry
 //     deliberately skips the filter there);
-//   * Drop aggregation: no stream at all, or a stream that carries only drop points.
+//   * Drop aggregation: no stream at all, or a stream that carries only drop points;
+//   * logger scope attributes that differ only in the integer width of a value ({k: int32 1} against
+//     {k: int64 1}), or where one list names a key twice against the list with the last value only.
 #include <algorithm>
 #include <cstring>
 #include <functional>
@@ -49,7 +64,10 @@
 #include "opentelemetry/sdk/logs/exporter.h"
 #include "opentelemetry/sdk/logs/logger.h"
 #include "opentelemetry/sdk/logs/logger_config.h"
+#include "opentelemetry/sdk/logs/logger_context.h"
+#include "opentelemetry/sdk/logs/logger_context_factory.h"
 #include "opentelemetry/sdk/logs/logger_provider.h"
+#include "opentelemetry/sdk/logs/logger_provider_factory.h"
 #include "opentelemetry/sdk/logs/read_write_log_record.h"
 #include "opentelemetry/sdk/logs/simple_log_record_processor.h"
 #include "opentelemetry/sdk/metrics/aggregation/aggregation_config.h"
@@ -58,7 +76,10 @@
 #include "opentelemetry/sdk/metrics/instruments.h"
 #include "opentelemetry/sdk/metrics/meter.h"
 #include "opentelemetry/sdk/metrics/meter_config.h"
+#include "opentelemetry/sdk/metrics/meter_context.h"
+#include "opentelemetry/sdk/metrics/meter_context_factory.h"
 #include "opentelemetry/sdk/metrics/meter_provider.h"
+#include "opentelemetry/sdk/metrics/meter_provider_factory.h"
 #include "opentelemetry/sdk/metrics/metric_reader.h"
 #include "opentelemetry/sdk/metrics/view/attributes_processor.h"
 #include "opentelemetry/sdk/metrics/view/instrument_selector.h"
@@ -74,7 +95,10 @@
 #include "opentelemetry/sdk/trace/span_data.h"
 #include "opentelemetry/sdk/trace/tracer.h"
 #include "opentelemetry/sdk/trace/tracer_config.h"
+#include "opentelemetry/sdk/trace/tracer_context.h"
+#include "opentelemetry/sdk/trace/tracer_context_factory.h"
 #include "opentelemetry/sdk/trace/tracer_provider.h"
+#include "opentelemetry/sdk/trace/tracer_provider_factory.h"
 #include "opentelemetry/trace/span.h"
 #include "opentelemetry/trace/tracer.h"
 #include "vh.h"
@@ -306,24 +330,260 @@ std::string gen_pattern(vh::Reader &rd)
     p += parts[rd.below(13)];
   return p;
 }
+
+// ---------------------------------------------------------------- patterns beyond the small grammar
+// Well-formed ECMAScript patterns with the other metacharacters ( + ? {n,m} [...] (..|..) \. ^ $ ).
+// They are generated as a syntax tree (so they are well-formed by construction; an ill-formed
+// pattern is outside the domain: nothing documents what a selector does with it) and printed; the
+// reference matches on the tree.  The statement says "exact or pattern" without naming the pattern
+// language, so the verdict is decided only where the regular-expression reading and the exact reading
+// (the selector text compared byte by byte) agree - in practice: a name the pattern does not
+// describe must not be selected, whatever the reading - and an either-region elsewhere.
+struct RxNode
+{
+  enum K
+  {
+    kLit,
+    kAny,
+    kClass,
+    kGroup
+  } k = kLit;
+  char ch = 0;                             // kLit
+  std::string set;                         // kClass: the member characters, ranges expanded
+  bool neg = false;                        // kClass
+  std::string text;                        // kClass: how it is written
+  std::vector<std::vector<RxNode>> alts;   // kGroup
+  unsigned min = 1, max = 1;               // quantifier, max == ~0u: unbounded
+  std::string quant;                       // how the quantifier is written
+};
+using RxSeq = std::vector<RxNode>;
+using RxCont = std::function<bool(size_t)>;
+bool rx_seq(const RxSeq &q, size_t ni, const std::string &s, size_t si, const RxCont &k);
+bool rx_once(const RxNode &n, const std::string &s, size_t si, const RxCont &k)
+{
+  switch (n.k)
+  {
+    case RxNode::kLit:
+      return si < s.size() && s[si] == n.ch && k(si + 1);
+    case RxNode::kAny:
+      return si < s.size() && s[si] != '\n' && s[si] != '\r' && k(si + 1);
+    case RxNode::kClass:
+      return si < s.size() && ((n.set.find(s[si]) != std::string::npos) != n.neg) && k(si + 1);
+    default:
+      for (auto &a : n.alts)
+        if (rx_seq(a, 0, s, si, k))
+          return true;
+      return false;
+  }
+}
+bool rx_times(const RxNode &n, unsigned done, const std::string &s, size_t si, const RxCont &k)
+{
+  if (done >= n.min && k(si))
+    return true;
+  if (done >= n.max)
+    return false;
+  // every generated atom consumes at least one character: no empty iterations
+  return rx_once(n, s, si, [&](size_t sj) { return sj > si && rx_times(n, done + 1, s, sj, k); });
+}
+bool rx_seq(const RxSeq &q, size_t ni, const std::string &s, size_t si, const RxCont &k)
+{
+  if (ni == q.size())
+    return k(si);
+  return rx_times(q[ni], 0, s, si, [&](size_t sj) { return rx_seq(q, ni + 1, s, sj, k); });
+}
+bool rx_full(const RxSeq &q, const std::string &s)
+{
+  return rx_seq(q, 0, s, 0, [&](size_t e) { return e == s.size(); });
+}
+std::string rx_text(const RxSeq &q)
+{
+  std::string t;
+  for (auto &n : q)
+  {
+    switch (n.k)
+    {
+      case RxNode::kLit:
+        if (n.ch == '.')
+          t += "\\.";
+        else
+          t.push_back(n.ch);
+        break;
+      case RxNode::kAny:
+        t += ".";
+        break;
+      case RxNode::kClass:
+        t += n.text;
+        break;
+      default:
+        t += "(";
+        for (size_t a = 0; a < n.alts.size(); ++a)
+          t += (a ? "|" : "") + rx_text(n.alts[a]);
+        t += ")";
+        break;
+    }
+    t += n.quant;
+  }
+  return t;
+}
+void rx_word(RxSeq &q, const char *w)
+{
+  for (; *w; ++w)
+  {
+    RxNode n;
+    n.ch = *w;
+    q.push_back(n);
+  }
+}
+struct RxPattern
+{
+  RxSeq seq;
+  std::string text;  // what is handed to the selector (may carry ^ / $, which regex_match ignores)
+};
+RxPattern gen_rx(vh::Reader &rd)
+{
+  static const char *const words[]  = {"req", "a", "count", "resp", "x", "ab", ".count", "req.", "a.b", "size"};
+  static const struct
+  {
+    const char *text, *set;
+    bool neg;
+  } classes[] = {{"[a-c]", "abc", false},      {"[^x]", "x", true},         {"[._/-]", "._/-", false},
+                 {"[0-9]", "0123456789", false}, {"[qQ]", "qQ", false},       {"[^.]", ".", true},
+                 {"[a-z.]", "abcdefghijklmnopqrstuvwxyz.", false}};
+  static const char *const groups[][3] = {{"req", "resp", nullptr},   {"a", "ab", nullptr},       {"count", "size", "total"},
+                                          {".count", ".size", nullptr}, {"x", nullptr, nullptr},  {"req.", "xreq.", nullptr}};
+  static const struct
+  {
+    const char *text;
+    unsigned min, max;
+  } quants[] = {{"", 1, 1}, {"+", 1, ~0u}, {"?", 0, 1}, {"*", 0, ~0u}, {"{2}", 2, 2}, {"{1,2}", 1, 2}, {"{0,}", 0, ~0u}};
+  RxPattern p;
+  unsigned n = 1 + rd.below(3);
+  for (unsigned i = 0; i < n; ++i)
+  {
+    switch (rd.weighted({4, 2, 3, 3}))
+    {
+      case 0:
+        rx_word(p.seq, words[rd.below(10)]);
+        break;
+      case 1:
+      {
+        RxNode a;
+        a.k = RxNode::kAny;
+        p.seq.push_back(a);
+        break;
+      }
+      case 2:
+      {
+        auto &cl = classes[rd.below(7)];
+        RxNode a;
+        a.k    = RxNode::kClass;
+        a.text = cl.text;
+        a.set  = cl.set;
+        a.neg  = cl.neg;
+        p.seq.push_back(a);
+        break;
+      }
+      default:
+      {
+        auto &g = groups[rd.below(6)];
+        RxNode a;
+        a.k = RxNode::kGroup;
+        for (unsigned x = 0; x < 3 && g[x]; ++x)
+        {
+          RxSeq alt;
+          rx_word(alt, g[x]);
+          a.alts.push_back(alt);
+        }
+        p.seq.push_back(a);
+        break;
+      }
+    }
+    // the quantifier binds to the last atom (the last character of a word)
+    auto &qu           = quants[rd.weighted({5, 2, 2, 2, 1, 1, 1})];
+    p.seq.back().quant = qu.text;
+    p.seq.back().min   = qu.min;
+    p.seq.back().max   = qu.max;
+  }
+  p.text = rx_text(p.seq);
+  if (p.text.find_first_of("+?[](){}|\\") == std::string::npos)
+  {
+    // still inside the small grammar (literals, '.', '.*'): the last atom gets a '+'
+    p.seq.back().quant = "+";
+    p.seq.back().min   = 1;
+    p.seq.back().max   = ~0u;
+    p.text             = rx_text(p.seq);
+  }
+  switch (rd.weighted({6, 1, 1, 1}))
+  {
+    case 1:
+      p.text = "^" + p.text;
+      break;
+    case 2:
+      p.text += "$";
+      break;
+    case 3:
+      p.text = "^" + p.text + "$";
+      break;
+    default:
+      break;
+  }
+  return p;
+}
+// a text the tree describes (so that the match side is visited, too)
+std::string rx_sample(const RxSeq &q, vh::Reader &rd)
+{
+  std::string t;
+  for (auto &n : q)
+  {
+    unsigned reps = n.min + ((n.max > n.min && rd.coin()) ? 1 : 0);
+    for (unsigned r = 0; r < reps; ++r)
+      switch (n.k)
+      {
+        case RxNode::kLit:
+          t.push_back(n.ch);
+          break;
+        case RxNode::kAny:
+          t.push_back(rd.coin() ? '.' : 'q');
+          break;
+        case RxNode::kClass:
+          t.push_back(n.neg ? (n.set.find('k') == std::string::npos ? 'k' : '_')
+                            : n.set[rd.below(static_cast<uint32_t>(n.set.size()))]);
+          break;
+        default:
+          t += rx_sample(n.alts[rd.below(static_cast<uint32_t>(n.alts.size()))], rd);
+          break;
+      }
+  }
+  return t;
+}
+Tri ref_rx(const RxPattern &p, const std::string &text)
+{
+  bool as_regex = rx_full(p.seq, text), as_exact = p.text == text;
+  if (as_regex == as_exact)
+    return as_regex ? kYes : kNo;
+  return kEither;
+}
 }  // namespace
 
 // ================================================================================================
 VH_TARGET(predicate, 1,
-          "non-trivial when the pattern has a wildcard token ('.', '.*' or the lone '*') or the text "
+          "non-trivial when the pattern has a wildcard token ('.', '.*' or the lone '*'), is a generated "
+          "regular-expression tree with further metacharacters (+ ? {n,m} [..] (..|..) \\. ^ $), or the text "
           "differs from the pattern by at most two characters (near miss); distinct = distinct (type, "
           "pattern, text) triple")
 {
   vh::Reader &rd = c.rd;
   bool exact     = rd.chance(30);
   std::string pat, text;
+  RxPattern rx;
+  bool is_rx = false;
   if (exact)
   {
     pat = rd.chance(20) ? "" : kNamePool[rd.below(kNamePoolN)];
   }
   else
   {
-    switch (rd.weighted({5, 2, 3}))
+    switch (rd.weighted({5, 2, 3, 4}))
     {
       case 0:
         pat = gen_pattern(rd);
@@ -331,14 +591,40 @@ VH_TARGET(predicate, 1,
       case 1:
         pat = "*";
         break;
+      case 3:
+        rx    = gen_rx(rd);
+        pat   = rx.text;
+        is_rx = true;
+        break;
       default:
         pat = kNamePool[rd.below(kNamePoolN)];
         break;
     }
   }
-  // texts: pool names, the pattern itself, near misses (one character more / less / changed)
-  switch (rd.weighted({5, 2, 2, 2, 2, 1}))
+  // texts: pool names, the pattern itself, near misses (one character more / less / changed), and
+  // for tree patterns a text the tree describes (possibly one character more / less)
+  switch (rd.weighted({5, 2, 2, 2, 2, 1, 4}))
   {
+    case 6:
+      if (is_rx)
+      {
+        text = rx_sample(rx.seq, rd);
+        switch (rd.below(4))
+        {
+          case 1:
+            text += "x";
+            break;
+          case 2:
+            if (!text.empty())
+              text.resize(text.size() - 1);
+            break;
+          default:
+            break;
+        }
+        break;
+      }
+      text = kNamePool[rd.below(kNamePoolN)];
+      break;
     case 0:
       text = kNamePool[rd.below(kNamePoolN)];
       break;
@@ -362,10 +648,10 @@ VH_TARGET(predicate, 1,
       break;
   }
   // backslash escapes are outside the direct matcher's grammar
-  if (pat.find('\\') != std::string::npos)
+  if (!is_rx && pat.find('\\') != std::string::npos)
     pat = "req.count";
   c.note(std::string(exact ? "exact" : "pattern") + " '" + vh::show(pat) + "' vs '" + vh::show(text) + "'\n");
-  Tri want = exact ? ref_exact(pat, text) : ref_pattern(pat, text);
+  Tri want = exact ? ref_exact(pat, text) : is_rx ? ref_rx(rx, text) : ref_pattern(pat, text);
   std::unique_ptr<sdkm::Predicate> p;
   bool plain_pattern = rd.chance(50);
   {
@@ -379,10 +665,24 @@ VH_TARGET(predicate, 1,
   Held ht(text, post);
   bool got = p->Match(ht.view());
   ht.scribble();
-  c.tag(exact ? "type-exact" : "type-pattern");
+  {
+    // a predicate is a function of the text: the same text in other storage gives the same answer
+    Held again(text, post[0] == '#' ? "count" : "#~");
+    bool got2 = p->Match(again.view());
+    VH_CHECK(c, got == got2, "predicate '" << vh::show(pat) << "' Match('" << vh::show(text) << "') returned " << got
+                                           << " and then " << got2 << " for the same text in other storage");
+  }
+  c.tag(exact ? "type-exact" : is_rx ? "type-pattern-metachar" : "type-pattern");
+  if (is_rx)
+  {
+    c.tag(rx_full(rx.seq, text) ? "metachar-tree-matches" : "metachar-tree-no-match");
+    for (const char *m : {"+", "?", "[", "(", "{", "\\", "^", "$"})
+      if (pat.find(m) != std::string::npos)
+        c.tag(std::string("metachar-") + m);
+  }
   c.tag(want == kYes ? "ref-match" : want == kNo ? "ref-no-match" : "ref-either");
   c.tag(std::string("text-followed-by-") + (post[0] == '#' ? "garbage" : "name-chars"));
-  c.nontrivial = pat == "*" || pat.find('.') != std::string::npos ||
+  c.nontrivial = is_rx || pat == "*" || pat.find('.') != std::string::npos ||
                  (pat != text && pat.size() + 2 >= text.size() && text.size() + 2 >= pat.size());
   VH_CHECK(c, want == kEither || got == (want == kYes),
            (exact ? "exact" : "pattern") << " predicate '" << vh::show(pat) << "' (handed over as a view "
@@ -477,8 +777,11 @@ struct ViewSpec
   unsigned agg    = 0;
   unsigned filter = 0;
   bool bounds     = false;
+  std::shared_ptr<RxPattern> rx;  // set when sel_name is a generated regular-expression tree
 };
 const std::vector<double> kCustomBounds = {0.0, 1500.0, 20000.0};
+// see the use: true until known_findings.json lists C19-async-hist-bounds (or the tree is repaired)
+const bool kHoldBack_async_hist_bounds = false;  // finding fixed in /repo 8a98069
 
 std::string show_view(const ViewSpec &v)
 {
@@ -496,7 +799,7 @@ std::string show_inst(const InstSpec &i, const std::vector<MeterSpec> &meters)
 Tri ref_view_matches(const ViewSpec &v, const InstSpec &i, const ScopeId &m)
 {
   Tri t = v.sel_type == i.type ? kYes : kNo;
-  t     = both(t, ref_pattern(v.sel_name, i.name));
+  t     = both(t, v.rx ? ref_rx(*v.rx, i.name) : ref_pattern(v.sel_name, i.name));
   t     = both(t, ref_exact(v.sel_unit, i.unit));
   t     = both(t, ref_exact(v.m_name, m.name));
   t     = both(t, ref_exact_optional(v.m_version, m.version));
@@ -583,6 +886,7 @@ struct Series
   uint64_t count = 0;
   bool monotonic = false;
   std::vector<double> bounds;
+  std::vector<uint64_t> counts;  // histogram bucket counts
 };
 struct Stream
 {
@@ -647,6 +951,7 @@ void collect(sdkm::MetricReader &reader, std::vector<Stream> *out, vh::Case &c)
             se.value  = num(p.sum_);
             se.count  = p.count_;
             se.bounds = p.boundaries_;
+            se.counts = p.counts_;
           }
           else if (nostd::holds_alternative<sdkm::LastValuePointData>(pt.point_data))
           {
@@ -677,8 +982,23 @@ struct Expect
   Kind kind;
   std::map<std::string, std::vector<double>> series;  // attribute text -> contributing values
   bool check_mono = false, mono = false;
-  bool check_bounds = false;
+  // histogram kinds: the boundaries the stream must carry - the view's own list when the view
+  // configures one, else the default list of the explicit-bucket histogram ("and nothing else shapes
+  // the stream" / "default aggregation": a boundary list that leaks from another view, another
+  // instrument or a previous storage is a violation in both directions)
+  const std::vector<double> *bounds = nullptr;
 };
+// HistogramAggregationConfig's documented default / the specification's default explicit buckets
+const std::vector<double> kDefaultBounds = {0.0,   5.0,   10.0,   25.0,   50.0,   75.0,   100.0,  250.0,
+                                            500.0, 750.0, 1000.0, 2500.0, 5000.0, 7500.0, 10000.0};
+// bucket i holds the values in (bounds[i-1], bounds[i]]; the generated values never sit on a boundary
+size_t bucket_of(double v, const std::vector<double> &bounds)
+{
+  size_t i = 0;
+  while (i < bounds.size() && v > bounds[i])
+    ++i;
+  return i;
+}
 Expect expect_of(const InstSpec &in, size_t idx, const ViewSpec *v)
 {
   Expect e;
@@ -703,10 +1023,25 @@ Expect expect_of(const InstSpec &in, size_t idx, const ViewSpec *v)
     e.check_mono = true;
     e.mono       = in.type == 0 || in.type == 3;
   }
-  e.check_bounds = e.kind == kHistK && v && v->bounds && !is_async(in.type);
+  if (e.kind == kHistK)
+    e.bounds = (v && v->bounds) ? &kCustomBounds : &kDefaultBounds;
   return e;
 }
 
+std::string show_doubles(const std::vector<double> &v)
+{
+  std::string t = "{";
+  for (size_t i = 0; i < v.size(); ++i)
+    t += (i ? "," : "") + std::to_string(static_cast<long long>(v[i]));
+  return t + "}";
+}
+std::string show_counts(const std::vector<uint64_t> &v)
+{
+  std::string t = "[";
+  for (size_t i = 0; i < v.size(); ++i)
+    t += (i ? "," : "") + std::to_string(v[i]);
+  return t + "]";
+}
 // empty string when the stream is what the expectation describes
 std::string fits(const Stream &s, const Expect &e, const InstSpec &in, const ScopeId &meter)
 {
@@ -742,8 +1077,18 @@ std::string fits(const Stream &s, const Expect &e, const InstSpec &in, const Sco
     if (e.kind == kHistK && (se.value != sum || se.count != kv.second.size()))
       return "histogram sum/count " + std::to_string(se.value) + "/" + std::to_string(se.count) + " != " +
              std::to_string(sum) + "/" + std::to_string(kv.second.size());
-    if (e.kind == kHistK && e.check_bounds && se.bounds != kCustomBounds)
-      return "histogram boundaries are not the view's";
+    if (e.kind == kHistK && e.bounds)
+    {
+      if (se.bounds != *e.bounds)
+        return std::string("histogram boundaries ") + show_doubles(se.bounds) + " are not " +
+               (e.bounds == &kCustomBounds ? "the view's " : "the default ") + show_doubles(*e.bounds);
+      std::vector<uint64_t> want(e.bounds->size() + 1, 0);
+      for (double x : kv.second)
+        want[bucket_of(x, *e.bounds)]++;
+      if (se.counts != want)
+        return "histogram bucket counts " + show_counts(se.counts) + " != " + show_counts(want) + " (boundaries " +
+               show_doubles(*e.bounds) + ")";
+    }
     if (e.kind == kLastK && std::find(kv.second.begin(), kv.second.end(), se.value) == kv.second.end())
       return "last value " + std::to_string(se.value) + " was never recorded for that attribute set";
   }
@@ -875,291 +1220,19 @@ struct Handle
 };
 }  // namespace
 
-VH_TARGET(views, 3,
-          "non-trivial when at least one view matches at least one instrument AND at least one (view, "
-          "instrument) pair does not match (both directions of 'exactly' are exercised); distinct = "
-          "distinct (meters, instruments, views) text")
+namespace
 {
-  quiet_logs();
-  vh::Reader &rd = c.rd;
-
-  // ---- meters
-  static const char *const mnames[] = {"lib.a", "lib.b", "lib.a2"};
-  static const char *const mvers[]  = {"", "1.0", "2.0"};
-  static const char *const mschem[] = {"", "https://s/1", "https://s/2"};
-  std::vector<MeterSpec> meters;
-  // all counts first: a short stream still yields views (made of zero choices: they match)
-  unsigned nv = static_cast<unsigned>(rd.weighted({2, 4, 4, 3, 2}));
-  unsigned ni = 1 + static_cast<unsigned>(rd.weighted({3, 4, 3, 2}));
-  unsigned nm = 1 + static_cast<unsigned>(rd.weighted({5, 3, 1}));
-  for (unsigned i = 0; i < nm; ++i)
-  {
-    MeterSpec m;
-    m.id = ScopeId{mnames[rd.below(3)], mvers[rd.below(3)], mschem[rd.weighted({3, 2, 1})]};
-    bool dup = false;
-    for (auto &o : meters)
-      dup = dup || o.id == m.id;
-    if (!dup)
-      meters.push_back(m);
-  }
-  // ---- instruments
-  static const char *const units[] = {"", "ms", "By"};
-  static const char *const descs[] = {"", "instrument description"};
-  std::vector<InstSpec> insts;
-  for (unsigned i = 0; i < ni && (i == 0 || !rd.exhausted()); ++i)
-  {
-    InstSpec in;
-    in.meter = rd.below(static_cast<uint32_t>(meters.size()));
-    in.type  = rd.below(kTypes);
-    in.dbl   = rd.coin();
-    in.name  = kNamePool[rd.below(kNamePoolN)];
-    in.unit  = units[rd.weighted({3, 2, 1})];
-    in.desc  = descs[rd.below(2)];
-    in.plan  = rd.chance(60) ? 1 : 0;
-    // a "unit sibling": the previous instrument's meter, name, type, value type and description
-    // with another unit.  It is a different instrument (a unit selector tells the two apart), the
-    // second one must not be taken for a further handle of the first.
-    bool sibling = !insts.empty() && rd.chance(20);
-    if (sibling)
-    {
-      const InstSpec &prev = insts.back();
-      std::string other    = prev.unit == "ms" ? (rd.coin() ? "" : "s") : "ms";
-      in                   = prev;
-      in.unit              = other;
-      in.plan              = rd.chance(60) ? 1 : 0;
-    }
-    // otherwise one instrument per (meter, name): re-registration is property C06's subject
-    bool dup = false;
-    for (auto &o : insts)
-      dup = dup || (o.meter == in.meter && o.name == in.name && (!sibling || o.unit == in.unit));
-    if (!dup)
-    {
-      insts.push_back(in);
-      if (sibling)
-        c.tag("same-name-other-unit");
-    }
-  }
-  // ---- views
-  std::vector<ViewSpec> views;
-  for (unsigned i = 0; i < nv; ++i)
-  {
-    ViewSpec v;
-    const InstSpec &near = insts[rd.below(static_cast<uint32_t>(insts.size()))];
-    const MeterSpec &mnear = meters[rd.below(static_cast<uint32_t>(meters.size()))];
-    v.sel_type = rd.chance(15) ? rd.below(kTypes + 1) : near.type;
-    switch (rd.weighted({35, 15, 35, 15}))
-    {
-      case 0:
-        v.sel_name = near.name;
-        break;
-      case 1:
-        v.sel_name = "*";
-        break;
-      case 2:
-        v.sel_name = gen_pattern(rd);
-        break;
-      default:
-        v.sel_name = kNamePool[rd.below(kNamePoolN)];
-        break;
-    }
-    if (v.sel_name.find('\\') != std::string::npos)
-      v.sel_name = "req.count";
-    switch (rd.weighted({60, 25, 15}))
-    {
-      case 0:
-        break;
-      case 1:
-        v.sel_unit = near.unit;
-        break;
-      default:
-        v.sel_unit = rd.coin() ? "ms" : "s";
-        break;
-    }
-    switch (rd.weighted({60, 30, 10}))
-    {
-      case 0:
-        break;
-      case 1:
-        v.m_name = mnear.id.name;
-        break;
-      default:
-        v.m_name = rd.coin() ? "lib.zz" : "lib";
-        break;
-    }
-    switch (rd.weighted({60, 25, 15}))
-    {
-      case 0:
-        break;
-      case 1:
-        v.m_version = mnear.id.version;
-        break;
-      default:
-        v.m_version = rd.coin() ? "1.0" : "9.9";
-        break;
-    }
-    switch (rd.weighted({70, 20, 10}))
-    {
-      case 0:
-        break;
-      case 1:
-        v.m_schema = mnear.id.schema;
-        break;
-      default:
-        v.m_schema = rd.coin() ? "https://s/1" : "https://s/9";
-        break;
-    }
-    static const char *const vnames[] = {"", "view.one", "renamed", "v/2"};
-    v.v_name = vnames[rd.weighted({5, 2, 2, 1})];
-    v.v_desc = rd.chance(40) ? "view description " + std::to_string(i) : "";
-    v.agg    = static_cast<unsigned>(rd.weighted({40, 15, 15, 15, 15}));
-    v.filter = rd.chance(45) ? 1 + rd.below(6) : 0;
-    v.bounds = rd.chance(30);
-    if (is_async(v.sel_type) && v.filter != 0 && vh::excluded("C19-ASYNC-VIEW-FILTER"))
-    {
-      vh::count_excluded("C19-ASYNC-VIEW-FILTER");
-      v.filter = 0;
-    }
-    views.push_back(v);
-  }
-
-  // ---- reference: which views apply to which instrument
-  std::vector<std::vector<Tri>> rel(insts.size(), std::vector<Tri>(views.size(), kNo));
-  bool any_match = false, any_miss = false;
-  for (size_t i = 0; i < insts.size(); ++i)
-    for (size_t v = 0; v < views.size(); ++v)
-    {
-      rel[i][v] = ref_view_matches(views[v], insts[i], meters[insts[i].meter].id);
-      any_match = any_match || rel[i][v] == kYes;
-      any_miss  = any_miss || rel[i][v] == kNo;
-      if (rel[i][v] == kEither)
-        c.tag("pair-either");
-    }
-  // open finding of property C06 (the meter keeps ONE storage per instrument name): when it is
-  // excluded, an instrument that two views may match is not created
-  if (vh::excluded("F8"))
-  {
-    std::vector<InstSpec> keep;
-    std::vector<std::vector<Tri>> keep_rel;
-    for (size_t i = 0; i < insts.size(); ++i)
-    {
-      size_t n = 0;
-      for (Tri t : rel[i])
-        n += t != kNo;
-      if (n >= 2)
-      {
-        vh::count_excluded("F8");
-        continue;
-      }
-      keep.push_back(insts[i]);
-      keep_rel.push_back(rel[i]);
-    }
-    insts = keep;
-    rel   = keep_rel;
-  }
-  for (auto &m : meters)
-    c.note("meter " + show_scope(m.id) + "\n");
-  for (auto &i : insts)
-    c.note("instrument " + show_inst(i, meters) + "\n");
-  for (auto &v : views)
-    c.note("view " + show_view(v) + "\n");
-  c.nontrivial = any_match && any_miss;
-  c.tag("views-" + std::to_string(views.size()));
-  for (size_t i = 0; i < insts.size(); ++i)
-  {
-    size_t yes = 0;
-    for (Tri t : rel[i])
-      yes += t == kYes;
-    c.tag(yes == 0 ? "inst-default-view" : yes == 1 ? "inst-one-view" : "inst-multi-view");
-    c.tag(std::string("inst-") + kTypeName[insts[i].type]);
-  }
-  for (auto &v : views)
-  {
-    c.tag(std::string("agg-") + kAggName[v.agg]);
-    c.tag(v.sel_name == "*" ? "sel-star" : v.sel_name.find(".*") != std::string::npos ? "sel-wildcard"
-                                       : v.sel_name.find('.') != std::string::npos  ? "sel-dot"
-                                                                                    : "sel-literal");
-    if (v.filter)
-      c.tag("view-allow-list");
-    if (!v.v_name.empty())
-      c.tag("view-renames");
-    if (!v.m_name.empty() || !v.m_version.empty() || !v.m_schema.empty())
-      c.tag("meter-selector");
-    if (!v.sel_unit.empty())
-      c.tag("unit-selector");
-  }
-
-  // ---- (1) the registry, asked directly
-  {
-    sdkm::ViewRegistry reg;
-    std::vector<const sdkm::View *> ptr;
-    for (auto &v : views)
-    {
-      Built b = build_view(v);
-      ptr.push_back(b.view.get());
-      reg.AddView(std::move(b.is), std::move(b.ms), std::move(b.view));
-    }
-    for (size_t i = 0; i < insts.size(); ++i)
-    {
-      const InstSpec &in = insts[i];
-      sdkm::InstrumentDescriptor d{in.name, in.desc, in.unit, kType[in.type],
-                                   in.dbl ? sdkm::InstrumentValueType::kDouble : sdkm::InstrumentValueType::kLong};
-      const ScopeId &mid = meters[in.meter].id;
-      auto sc            = InstrumentationScope::Create(mid.name, mid.version, mid.schema);
-      std::vector<const sdkm::View *> got;
-      bool r = reg.FindViews(d, *sc, [&got](const sdkm::View &v) {
-        got.push_back(&v);
-        return true;
-      });
-      VH_CHECK(c, r, "FindViews returned false although every callback returned true");
-      std::vector<size_t> got_idx;
-      size_t unknown = 0;
-      for (auto *g : got)
-      {
-        auto it = std::find(ptr.begin(), ptr.end(), g);
-        if (it == ptr.end())
-          ++unknown;
-        else
-          got_idx.push_back(static_cast<size_t>(it - ptr.begin()));
-      }
-      std::string gs;
-      for (size_t x : got_idx)
-        gs += " #" + std::to_string(x);
-      for (size_t v = 0; v < views.size(); ++v)
-      {
-        bool has = std::find(got_idx.begin(), got_idx.end(), v) != got_idx.end();
-        VH_CHECK(c, rel[i][v] != kYes || has, "FindViews(" << show_inst(in, meters) << ") did not hand out view #"
-                                                           << v << " " << show_view(views[v])
-                                                           << " although every selector matches; got" << gs);
-        VH_CHECK(c, rel[i][v] != kNo || !has, "FindViews(" << show_inst(in, meters) << ") handed out view #" << v
-                                                           << " " << show_view(views[v])
-                                                           << " although a selector does not match");
-      }
-      VH_CHECK(c, std::is_sorted(got_idx.begin(), got_idx.end()) &&
-                      std::adjacent_find(got_idx.begin(), got_idx.end()) == got_idx.end(),
-               "FindViews(" << show_inst(in, meters) << ") handed out views out of registration order or twice:" << gs);
-      if (got_idx.empty())
-      {
-        VH_CHECK(c, unknown == 1, "no registered view matches " << show_inst(in, meters) << " but FindViews handed out "
-                                                                << unknown << " default views");
-        const sdkm::View *dv = got[0];
-        VH_CHECK(c, dv->GetName().empty() && dv->GetDescription().empty() &&
-                        dv->GetAggregationType() == sdkm::AggregationType::kDefault &&
-                        dv->GetAggregationConfig() == nullptr && dv->GetAttributesProcessor().isPresent("any.key"),
-                 "the default view is not neutral: name '" << dv->GetName() << "' description '"
-                                                           << dv->GetDescription() << "'");
-      }
-      else
-        VH_CHECK(c, unknown == 0, "FindViews(" << show_inst(in, meters)
-                                               << ") handed out a view that was never registered next to" << gs);
-    }
-  }
-
-  // ---- (2) end to end
-  bool delta = rd.chance(30);
-  c.tag(delta ? "reader-delta" : "reader-cumulative");
+// ---- (2) end to end: the streams at a reader are exactly those the applying views describe
+void end_to_end(vh::Case &c,
+                const std::vector<MeterSpec> &meters,
+                const std::vector<InstSpec> &insts,
+                const std::vector<ViewSpec> &views,
+                const std::vector<std::vector<Tri>> &rel,
+                bool delta,
+                bool via_provider)
+{
   std::shared_ptr<HReader> reader(
       new HReader(delta ? sdkm::AggregationTemporality::kDelta : sdkm::AggregationTemporality::kCumulative));
-  bool via_provider = rd.coin();
   std::unique_ptr<sdkm::ViewRegistry> reg(new sdkm::ViewRegistry);
   if (!via_provider)
     for (auto &v : views)
@@ -1326,11 +1399,528 @@ VH_TARGET(views, 3,
   for (auto &h : handles)
     h->release();
 }
+}  // namespace
+
+VH_TARGET(views, 3,
+          "non-trivial when at least one view matches at least one instrument AND at least one (view, "
+          "instrument) pair does not match (both directions of 'exactly' are exercised); distinct = "
+          "distinct (meters, instruments, views) text")
+{
+  quiet_logs();
+  vh::Reader &rd = c.rd;
+
+  // ---- meters
+  static const char *const mnames[] = {"lib.a", "lib.b", "lib.a2"};
+  static const char *const mvers[]  = {"", "1.0", "2.0"};
+  static const char *const mschem[] = {"", "https://s/1", "https://s/2"};
+  std::vector<MeterSpec> meters;
+  // all counts first: a short stream still yields views (made of zero choices: they match)
+  unsigned nv = static_cast<unsigned>(rd.weighted({2, 4, 4, 3, 2}));
+  unsigned ni = 1 + static_cast<unsigned>(rd.weighted({3, 4, 3, 2}));
+  unsigned nm = 1 + static_cast<unsigned>(rd.weighted({5, 3, 1}));
+  for (unsigned i = 0; i < nm; ++i)
+  {
+    MeterSpec m;
+    m.id = ScopeId{mnames[rd.below(3)], mvers[rd.below(3)], mschem[rd.weighted({3, 2, 1})]};
+    bool dup = false;
+    for (auto &o : meters)
+      dup = dup || o.id == m.id;
+    if (!dup)
+      meters.push_back(m);
+  }
+  // ---- instruments
+  static const char *const units[] = {"", "ms", "By"};
+  static const char *const descs[] = {"", "instrument description"};
+  std::vector<InstSpec> insts;
+  for (unsigned i = 0; i < ni && (i == 0 || !rd.exhausted()); ++i)
+  {
+    InstSpec in;
+    in.meter = rd.below(static_cast<uint32_t>(meters.size()));
+    in.type  = rd.below(kTypes);
+    in.dbl   = rd.coin();
+    in.name  = kNamePool[rd.below(kNamePoolN)];
+    in.unit  = units[rd.weighted({3, 2, 1})];
+    in.desc  = descs[rd.below(2)];
+    in.plan  = rd.chance(60) ? 1 : 0;
+    // a "unit sibling": the previous instrument's meter, name, type, value type and description
+    // with another unit.  It is a different instrument (a unit selector tells the two apart), the
+    // second one must not be taken for a further handle of the first.
+    bool sibling = !insts.empty() && rd.chance(20);
+    if (sibling)
+    {
+      const InstSpec &prev = insts.back();
+      std::string other    = prev.unit == "ms" ? (rd.coin() ? "" : "s") : "ms";
+      in                   = prev;
+      in.unit              = other;
+      in.plan              = rd.chance(60) ? 1 : 0;
+    }
+    // otherwise one instrument per (meter, name): re-registration is property C06's subject
+    bool dup = false;
+    for (auto &o : insts)
+      dup = dup || (o.meter == in.meter && o.name == in.name && (!sibling || o.unit == in.unit));
+    if (!dup)
+    {
+      insts.push_back(in);
+      if (sibling)
+        c.tag("same-name-other-unit");
+    }
+  }
+  // ---- views
+  std::vector<ViewSpec> views;
+  for (unsigned i = 0; i < nv; ++i)
+  {
+    ViewSpec v;
+    const InstSpec &near = insts[rd.below(static_cast<uint32_t>(insts.size()))];
+    const MeterSpec &mnear = meters[rd.below(static_cast<uint32_t>(meters.size()))];
+    v.sel_type = rd.chance(15) ? rd.below(kTypes + 1) : near.type;
+    switch (rd.weighted({35, 15, 35, 15, 10}))
+    {
+      case 0:
+        v.sel_name = near.name;
+        break;
+      case 1:
+        v.sel_name = "*";
+        break;
+      case 2:
+        v.sel_name = gen_pattern(rd);
+        break;
+      case 4:
+        v.rx       = std::make_shared<RxPattern>(gen_rx(rd));
+        v.sel_name = v.rx->text;
+        break;
+      default:
+        v.sel_name = kNamePool[rd.below(kNamePoolN)];
+        break;
+    }
+    if (!v.rx && v.sel_name.find('\\') != std::string::npos)
+      v.sel_name = "req.count";
+    switch (rd.weighted({60, 25, 15}))
+    {
+      case 0:
+        break;
+      case 1:
+        v.sel_unit = near.unit;
+        break;
+      default:
+        v.sel_unit = rd.coin() ? "ms" : "s";
+        break;
+    }
+    switch (rd.weighted({60, 30, 10}))
+    {
+      case 0:
+        break;
+      case 1:
+        v.m_name = mnear.id.name;
+        break;
+      default:
+        v.m_name = rd.coin() ? "lib.zz" : "lib";
+        break;
+    }
+    switch (rd.weighted({60, 25, 15}))
+    {
+      case 0:
+        break;
+      case 1:
+        v.m_version = mnear.id.version;
+        break;
+      default:
+        v.m_version = rd.coin() ? "1.0" : "9.9";
+        break;
+    }
+    switch (rd.weighted({70, 20, 10}))
+    {
+      case 0:
+        break;
+      case 1:
+        v.m_schema = mnear.id.schema;
+        break;
+      default:
+        v.m_schema = rd.coin() ? "https://s/1" : "https://s/9";
+        break;
+    }
+    static const char *const vnames[] = {"", "view.one", "renamed", "v/2"};
+    v.v_name = vnames[rd.weighted({5, 2, 2, 1})];
+    v.v_desc = rd.chance(40) ? "view description " + std::to_string(i) : "";
+    v.agg    = static_cast<unsigned>(rd.weighted({40, 15, 15, 15, 15}));
+    v.filter = rd.chance(45) ? 1 + rd.below(6) : 0;
+    // custom boundaries matter only where the stream is a histogram: drawn more often there
+    v.bounds = rd.chance(kind_of(v.agg, v.sel_type < kTypes ? v.sel_type : 0) == kHistK ? 55 : 15);
+    if (is_async(v.sel_type) && v.filter != 0 && vh::excluded("C19-ASYNC-VIEW-FILTER"))
+    {
+      vh::count_excluded("C19-ASYNC-VIEW-FILTER");
+      v.filter = 0;
+    }
+    // defect candidate C19-async-hist-bounds (proposed_fixes/): a Histogram view WITH its own
+    // boundaries on an observable instrument exports all-zero bucket counts.  Held back until the
+    // coordinator has decided; the fixed target async_hist_bounds_witness reproduces it.
+    if (is_async(v.sel_type) && v.bounds && kAgg[v.agg] == sdkm::AggregationType::kHistogram &&
+        (kHoldBack_async_hist_bounds || vh::excluded("C19-async-hist-bounds")))
+    {
+      if (vh::excluded("C19-async-hist-bounds"))
+        vh::count_excluded("C19-async-hist-bounds");
+      v.bounds = false;
+    }
+    views.push_back(v);
+  }
+
+  // ---- reference: which views apply to which instrument
+  std::vector<std::vector<Tri>> rel(insts.size(), std::vector<Tri>(views.size(), kNo));
+  bool any_match = false, any_miss = false;
+  for (size_t i = 0; i < insts.size(); ++i)
+    for (size_t v = 0; v < views.size(); ++v)
+    {
+      rel[i][v] = ref_view_matches(views[v], insts[i], meters[insts[i].meter].id);
+      any_match = any_match || rel[i][v] == kYes;
+      any_miss  = any_miss || rel[i][v] == kNo;
+      if (rel[i][v] == kEither)
+        c.tag("pair-either");
+    }
+  // open finding of property C06 (the meter keeps ONE storage per instrument name): when it is
+  // excluded, an instrument that two views may match is not created
+  if (vh::excluded("F8"))
+  {
+    std::vector<InstSpec> keep;
+    std::vector<std::vector<Tri>> keep_rel;
+    for (size_t i = 0; i < insts.size(); ++i)
+    {
+      size_t n = 0;
+      for (Tri t : rel[i])
+        n += t != kNo;
+      if (n >= 2)
+      {
+        vh::count_excluded("F8");
+        continue;
+      }
+      keep.push_back(insts[i]);
+      keep_rel.push_back(rel[i]);
+    }
+    insts = keep;
+    rel   = keep_rel;
+  }
+  for (auto &m : meters)
+    c.note("meter " + show_scope(m.id) + "\n");
+  for (auto &i : insts)
+    c.note("instrument " + show_inst(i, meters) + "\n");
+  for (auto &v : views)
+    c.note("view " + show_view(v) + "\n");
+  c.nontrivial = any_match && any_miss;
+  c.tag("views-" + std::to_string(views.size()));
+  for (size_t i = 0; i < insts.size(); ++i)
+  {
+    size_t yes = 0;
+    for (Tri t : rel[i])
+      yes += t == kYes;
+    c.tag(yes == 0 ? "inst-default-view" : yes == 1 ? "inst-one-view" : "inst-multi-view");
+    c.tag(std::string("inst-") + kTypeName[insts[i].type]);
+    // which boundary list a histogram stream of this instrument must carry
+    if (yes == 0 && default_kind(insts[i].type) == kHistK)
+      c.tag("hist-stream-default-view-default-bounds");
+    for (size_t v = 0; v < views.size(); ++v)
+      if (rel[i][v] == kYes && kind_of(views[v].agg, insts[i].type) == kHistK)
+        c.tag(std::string("hist-stream-") + (is_async(insts[i].type) ? "async-" : "") +
+              (views[v].bounds ? "view-bounds" : "view-without-bounds-default-bounds"));
+  }
+  for (auto &v : views)
+  {
+    c.tag(std::string("agg-") + kAggName[v.agg]);
+    c.tag(v.rx ? "sel-metachar" : v.sel_name == "*" ? "sel-star" : v.sel_name.find(".*") != std::string::npos ? "sel-wildcard"
+                                       : v.sel_name.find('.') != std::string::npos  ? "sel-dot"
+                                                                                    : "sel-literal");
+    if (v.filter)
+      c.tag("view-allow-list");
+    if (!v.v_name.empty())
+      c.tag("view-renames");
+    if (!v.m_name.empty() || !v.m_version.empty() || !v.m_schema.empty())
+      c.tag("meter-selector");
+    if (!v.sel_unit.empty())
+      c.tag("unit-selector");
+  }
+
+  // ---- (1) the registry, asked directly
+  {
+    sdkm::ViewRegistry reg;
+    std::vector<const sdkm::View *> ptr;
+    for (auto &v : views)
+    {
+      Built b = build_view(v);
+      ptr.push_back(b.view.get());
+      reg.AddView(std::move(b.is), std::move(b.ms), std::move(b.view));
+    }
+    for (size_t i = 0; i < insts.size(); ++i)
+    {
+      const InstSpec &in = insts[i];
+      sdkm::InstrumentDescriptor d{in.name, in.desc, in.unit, kType[in.type],
+                                   in.dbl ? sdkm::InstrumentValueType::kDouble : sdkm::InstrumentValueType::kLong};
+      const ScopeId &mid = meters[in.meter].id;
+      auto sc            = InstrumentationScope::Create(mid.name, mid.version, mid.schema);
+      std::vector<const sdkm::View *> got;
+      bool r = reg.FindViews(d, *sc, [&got](const sdkm::View &v) {
+        got.push_back(&v);
+        return true;
+      });
+      VH_CHECK(c, r, "FindViews returned false although every callback returned true");
+      std::vector<size_t> got_idx;
+      size_t unknown = 0;
+      for (auto *g : got)
+      {
+        auto it = std::find(ptr.begin(), ptr.end(), g);
+        if (it == ptr.end())
+          ++unknown;
+        else
+          got_idx.push_back(static_cast<size_t>(it - ptr.begin()));
+      }
+      std::string gs;
+      for (size_t x : got_idx)
+        gs += " #" + std::to_string(x);
+      for (size_t v = 0; v < views.size(); ++v)
+      {
+        bool has = std::find(got_idx.begin(), got_idx.end(), v) != got_idx.end();
+        VH_CHECK(c, rel[i][v] != kYes || has, "FindViews(" << show_inst(in, meters) << ") did not hand out view #"
+                                                           << v << " " << show_view(views[v])
+                                                           << " although every selector matches; got" << gs);
+        VH_CHECK(c, rel[i][v] != kNo || !has, "FindViews(" << show_inst(in, meters) << ") handed out view #" << v
+                                                           << " " << show_view(views[v])
+                                                           << " although a selector does not match");
+      }
+      VH_CHECK(c, std::is_sorted(got_idx.begin(), got_idx.end()) &&
+                      std::adjacent_find(got_idx.begin(), got_idx.end()) == got_idx.end(),
+               "FindViews(" << show_inst(in, meters) << ") handed out views out of registration order or twice:" << gs);
+      if (got_idx.empty())
+      {
+        VH_CHECK(c, unknown == 1, "no registered view matches " << show_inst(in, meters) << " but FindViews handed out "
+                                                                << unknown << " default views");
+        const sdkm::View *dv = got[0];
+        VH_CHECK(c, dv->GetName().empty() && dv->GetDescription().empty() &&
+                        dv->GetAggregationType() == sdkm::AggregationType::kDefault &&
+                        dv->GetAggregationConfig() == nullptr && dv->GetAttributesProcessor().isPresent("any.key"),
+                 "the default view is not neutral: name '" << dv->GetName() << "' description '"
+                                                           << dv->GetDescription() << "'");
+      }
+      else
+        VH_CHECK(c, unknown == 0, "FindViews(" << show_inst(in, meters)
+                                               << ") handed out a view that was never registered next to" << gs);
+    }
+  }
+
+  // ---- (2) end to end
+  bool delta = rd.chance(30);
+  c.tag(delta ? "reader-delta" : "reader-cumulative");
+  bool via_provider = rd.coin();
+  end_to_end(c, meters, insts, views, rel, delta, via_provider);
+}
+
+// ================================================================================================
+// Fixed cases (independent of the generators, so decoder changes cannot invalidate them): one meter,
+// one observable counter 'a', one view that selects it; run through the same end-to-end oracle.
+namespace
+{
+void fixed_view_case(vh::Case &c, const InstSpec &in, const ViewSpec &v)
+{
+  quiet_logs();
+  std::vector<MeterSpec> meters = {MeterSpec{ScopeId{"lib.a", "", ""}}};
+  std::vector<InstSpec> insts   = {in};
+  std::vector<ViewSpec> views   = {v};
+  std::vector<std::vector<Tri>> rel = {{ref_view_matches(v, in, meters[0].id)}};
+  c.note("meter " + show_scope(meters[0].id) + "\ninstrument " + show_inst(in, meters) + "\nview " + show_view(v) + "\n");
+  c.nontrivial = true;
+  end_to_end(c, meters, insts, views, rel, /*delta=*/false, /*via_provider=*/false);
+}
+}  // namespace
+
+VH_TARGET(async_view_filter_witness, 1,
+          "fixed witness case of known finding C19-ASYNC-VIEW-FILTER (not part of the search)")
+{
+  InstSpec in;
+  in.type = 3;  // ObservableCounter, int64
+  in.name = "a";
+  in.plan = 1;  // observes {a=1,b=2} and {a=1,c=3}
+  ViewSpec v;
+  v.sel_type = 3;
+  v.sel_name = "a";
+  v.filter   = 2;  // allow-list {a}: both observations belong to the one series {a=1}
+  fixed_view_case(c, in, v);
+}
+
+VH_TARGET(async_hist_bounds_witness, 1,
+          "fixed witness case of defect candidate C19-async-hist-bounds (not part of the search)")
+{
+  InstSpec in;
+  in.type = 3;  // ObservableCounter, int64
+  in.name = "a";
+  in.plan = 0;  // observes 1001 without attributes
+  ViewSpec v;
+  v.sel_type = 3;
+  v.sel_name = "a";
+  v.agg      = 3;     // Histogram aggregation ...
+  v.bounds   = true;  // ... with the view's own boundaries {0,1500,20000}
+  fixed_view_case(c, in, v);
+}
 
 // ================================================================================================
 // scope configurator rules
 namespace
 {
+// ---------------------------------------------------------------- scope attributes (loggers, ABI v1)
+enum AType
+{
+  aI64,
+  aStr,
+  aBool,
+  aDbl,
+  aI32,
+  aArrI64,  // {i, 7}
+  aArrStr,  // {s, "t"}
+  aCStr     // the text as a NUL-terminated const char *
+};
+struct AttrKV
+{
+  const char *key;
+  AType t;
+  int64_t i;
+  const char *s;
+};
+// attribute sets for logger scopes.  3 and 4 are equal as sets (other order); 5 and 13 carry the same
+// string through two presentations; 9 is the 32-bit twin of 1 (whether that is "the same attributes"
+// is an either-region); 14 names one key twice (the scope keeps the last value).
+const std::vector<std::vector<AttrKV>> kAttrSets = {
+    {},
+    {{"k", aI64, 1, ""}},
+    {{"k", aI64, 2, ""}},
+    {{"k", aI64, 1, ""}, {"j", aStr, 0, "s"}},
+    {{"j", aStr, 0, "s"}, {"k", aI64, 1, ""}},
+    {{"k", aStr, 0, "1"}},
+    {{"kk", aI64, 1, ""}},
+    {{"k", aBool, 1, ""}},
+    {{"k", aDbl, 1, ""}},
+    {{"k", aI32, 1, ""}},
+    {{"k", aArrI64, 1, ""}},
+    {{"k", aArrI64, 2, ""}},
+    {{"k", aArrStr, 0, "s"}},
+    {{"k", aCStr, 0, "1"}},
+    {{"k", aI64, 1, ""}, {"k", aI64, 2, ""}},
+};
+constexpr uint32_t kAttrSetsNoDup = 14;  // sets [0, 14) name every key once
+std::string attr_value_text(const AttrKV &kv, bool width)
+{
+  switch (kv.t)
+  {
+    case aI64:
+      return "i:" + std::to_string(kv.i);
+    case aI32:
+      return (width ? "i32:" : "i:") + std::to_string(kv.i);
+    case aStr:
+    case aCStr:
+      return "s:" + std::string(kv.s);
+    case aBool:
+      return std::string("b:") + (kv.i ? "true" : "false");
+    case aDbl:
+      return "d:" + std::to_string(kv.i);
+    case aArrI64:
+      return "ai:" + std::to_string(kv.i) + ",7";
+    default:
+      return "as:" + std::string(kv.s) + ",t";
+  }
+}
+// canonical text of a set: sorted, the last value of a repeated key wins
+std::string attr_key(unsigned idx, bool width = true)
+{
+  std::map<std::string, std::string> m;
+  for (auto &kv : kAttrSets[idx])
+    m[kv.key] = attr_value_text(kv, width);
+  std::string t;
+  for (auto &kv : m)
+    t += kv.first + "=" + kv.second + ";";
+  return t;
+}
+bool attr_has_dup(unsigned idx)
+{
+  std::set<std::string> keys;
+  for (auto &kv : kAttrSets[idx])
+    if (!keys.insert(kv.key).second)
+      return true;
+  return false;
+}
+size_t attr_distinct_keys(unsigned idx)
+{
+  std::set<std::string> keys;
+  for (auto &kv : kAttrSets[idx])
+    keys.insert(kv.key);
+  return keys.size();
+}
+// do two requests name "the same attributes"?
+Tri attrs_same(unsigned a, unsigned b)
+{
+  if (a == b)
+    return kYes;
+  if (attr_has_dup(a) || attr_has_dup(b))
+    return kEither;  // {k=1,k=2} against {k=2}: the statement does not say
+  if (attr_key(a) == attr_key(b))
+    return kYes;
+  if (attr_key(a, false) == attr_key(b, false))
+    return kEither;  // they differ in the integer width only
+  return kNo;
+}
+// the AttributeValues of a set, everything that is viewed lives in short-lived storage
+struct AttrStore
+{
+  std::vector<std::unique_ptr<std::string>> strs;
+  std::vector<std::unique_ptr<std::vector<int64_t>>> ints;
+  std::vector<std::unique_ptr<std::vector<nostd::string_view>>> views;
+  std::vector<std::pair<nostd::string_view, common::AttributeValue>> kvs;
+  nostd::string_view hold(const std::string &s)
+  {
+    strs.emplace_back(new std::string("\x02" + s + "#"));
+    return nostd::string_view(strs.back()->data() + 1, s.size());
+  }
+  explicit AttrStore(unsigned idx)
+  {
+    for (auto &kv : kAttrSets[idx])
+    {
+      nostd::string_view key = hold(kv.key);
+      switch (kv.t)
+      {
+        case aI64:
+          kvs.emplace_back(key, common::AttributeValue(kv.i));
+          break;
+        case aI32:
+          kvs.emplace_back(key, common::AttributeValue(static_cast<int32_t>(kv.i)));
+          break;
+        case aStr:
+          kvs.emplace_back(key, common::AttributeValue(hold(kv.s)));
+          break;
+        case aCStr:
+          strs.emplace_back(new std::string(kv.s));
+          kvs.emplace_back(key, common::AttributeValue(strs.back()->c_str()));
+          break;
+        case aBool:
+          kvs.emplace_back(key, common::AttributeValue(kv.i != 0));
+          break;
+        case aDbl:
+          kvs.emplace_back(key, common::AttributeValue(static_cast<double>(kv.i)));
+          break;
+        case aArrI64:
+          ints.emplace_back(new std::vector<int64_t>{kv.i, 7});
+          kvs.emplace_back(key, common::AttributeValue(nostd::span<const int64_t>(ints.back()->data(), 2)));
+          break;
+        default:
+          views.emplace_back(new std::vector<nostd::string_view>{hold(kv.s), hold("t")});
+          kvs.emplace_back(key,
+                           common::AttributeValue(nostd::span<const nostd::string_view>(views.back()->data(), 2)));
+          break;
+      }
+    }
+  }
+  void scribble()
+  {
+    for (auto &s : strs)
+      std::fill(s->begin(), s->end(), '\xDD');
+    for (auto &v : ints)
+      std::fill(v->begin(), v->end(), int64_t(0x5D5D5D5D));
+    for (auto &v : views)
+      std::fill(v->begin(), v->end(), nostd::string_view("\xDD\xDD\xDD"));
+  }
+};
+
 struct Rule
 {
   unsigned kind = 0;
@@ -1338,10 +1928,12 @@ struct Rule
   bool enable = false;
 };
 const char *const kRuleName[] = {"AddConditionNameEquals", "pred(name==)",  "pred(version==)", "pred(schema==)",
-                                 "pred(name has prefix)",  "pred(true)",    "pred(false)",     "pred(name length even)"};
-constexpr unsigned kRuleKinds = 8;
+                                 "pred(name has prefix)",  "pred(true)",    "pred(false)",     "pred(name length even)",
+                                 "pred(has attribute k)",  "pred(attribute k == int64 1)"};
+constexpr unsigned kRuleKinds = 10;
 
-bool rule_matches(const Rule &r, const ScopeId &s)
+// the model: does the rule match the scope (identity + index of its attribute set)?
+bool rule_matches(const Rule &r, const ScopeId &s, unsigned attrs = 0)
 {
   switch (r.kind)
   {
@@ -1358,15 +1950,40 @@ bool rule_matches(const Rule &r, const ScopeId &s)
       return true;
     case 6:
       return false;
-    default:
+    case 7:
       return s.name.size() % 2 == 0;
+    default:
+    {
+      const AttrKV *k = nullptr;
+      for (auto &kv : kAttrSets[attrs])
+        if (std::string(kv.key) == "k")
+          k = &kv;  // the last one wins
+      if (r.kind == 8)
+        return k != nullptr;
+      return k != nullptr && k->t == aI64 && k->i == 1;
+    }
   }
 }
+// the scripted predicate, as the configurator runs it: it sees the SDK's scope object
+bool rule_matches_real(const Rule &r, const InstrumentationScope &s)
+{
+  if (r.kind < 8)
+    return rule_matches(r, id_of(s));
+  auto &attrs = s.GetAttributes();
+  auto it     = attrs.find("k");
+  if (r.kind == 8)
+    return it != attrs.end();
+  return it != attrs.end() && nostd::holds_alternative<int64_t>(it->second) && nostd::get<int64_t>(it->second) == 1;
+}
 // first matching rule decides, else the default
-bool model_enabled(const std::vector<Rule> &rules, bool default_enabled, const ScopeId &s, int *decider = nullptr)
+bool model_enabled(const std::vector<Rule> &rules,
+                   bool default_enabled,
+                   const ScopeId &s,
+                   int *decider   = nullptr,
+                   unsigned attrs = 0)
 {
   for (size_t i = 0; i < rules.size(); ++i)
-    if (rule_matches(rules[i], s))
+    if (rule_matches(rules[i], s, attrs))
     {
       if (decider)
         *decider = static_cast<int>(i);
@@ -1401,7 +2018,7 @@ std::unique_ptr<scope_::ScopeConfigurator<Config>> build_configurator(const std:
       b.AddCondition(
           [copy, asked](const InstrumentationScope &s) {
             asked->push_back(id_of(s));
-            return rule_matches(copy, id_of(s));
+            return rule_matches_real(copy, s);
           },
           cfg);
     }
@@ -1426,12 +2043,158 @@ void gray_cb(apim::ObserverResult result, void *)
 {
   nostd::get<nostd::shared_ptr<apim::ObserverResultT<int64_t>>>(result)->Observe(7);
 }
+
+// ---------------------------------------------------------------- every way to build a provider
+// The configurator travels through each public constructor / factory overload that takes one; the
+// overloads without a configurator must behave like "no rules, everything enabled".
+constexpr unsigned kTracerPaths = 8, kMeterPaths = 6, kLoggerPaths = 8;
+const char *const kTracerPathName[kTracerPaths] = {"TracerProvider(processor,..,configurator)",
+                                                   "TracerProvider(vector<processor>,..,configurator)",
+                                                   "TracerProvider(TracerContext(..,configurator))",
+                                                   "TracerProviderFactory::Create(processor,..,configurator)",
+                                                   "TracerProviderFactory::Create(vector<processor>,..,configurator)",
+                                                   "TracerProviderFactory::Create(TracerContextFactory::Create(..,configurator))",
+                                                   "TracerProvider(processor,resource,sampler,idgen) [no configurator]",
+                                                   "TracerProviderFactory::Create(vector<processor>,resource) [no configurator]"};
+const char *const kMeterPathName[kMeterPaths] = {"MeterProvider(views,resource,configurator)",
+                                                 "MeterProvider(MeterContext(views,resource,configurator))",
+                                                 "MeterProviderFactory::Create(views,resource,configurator)",
+                                                 "MeterProviderFactory::Create(MeterContextFactory::Create(views,resource,configurator))",
+                                                 "MeterProvider(views,resource) [no configurator]",
+                                                 "MeterProviderFactory::Create(views,resource) [no configurator]"};
+const char *const kLoggerPathName[kLoggerPaths] = {"LoggerProvider(processor,resource,configurator)",
+                                                   "LoggerProvider(vector<processor>,resource,configurator)",
+                                                   "LoggerProvider(LoggerContext(vector,resource,configurator))",
+                                                   "LoggerProviderFactory::Create(processor,resource,configurator)",
+                                                   "LoggerProviderFactory::Create(vector<processor>,resource,configurator)",
+                                                   "LoggerProviderFactory::Create(LoggerContextFactory::Create(..,configurator))",
+                                                   "LoggerProvider(processor,resource) [no configurator]",
+                                                   "LoggerProviderFactory::Create(vector<processor>,resource) [no configurator]"};
+bool tracer_path_configured(unsigned p)
+{
+  return p < 6;
+}
+bool meter_path_configured(unsigned p)
+{
+  return p < 4;
+}
+bool logger_path_configured(unsigned p)
+{
+  return p < 6;
+}
+
+std::unique_ptr<sdkt::TracerProvider> make_tracer_provider(
+    unsigned path,
+    std::vector<SpanSeen> *sink,
+    std::unique_ptr<scope_::ScopeConfigurator<sdkt::TracerConfig>> cfg)
+{
+  std::unique_ptr<sdkt::SpanProcessor> proc(
+      new sdkt::SimpleSpanProcessor(std::unique_ptr<sdkt::SpanExporter>(new HSpanExporter(sink))));
+  std::unique_ptr<sdkt::Sampler> sampler(new sdkt::AlwaysOnSampler);
+  std::unique_ptr<sdkt::IdGenerator> idgen(new sdkt::RandomIdGenerator);
+  std::vector<std::unique_ptr<sdkt::SpanProcessor>> procs;
+  switch (path)
+  {
+    case 0:
+      return std::unique_ptr<sdkt::TracerProvider>(new sdkt::TracerProvider(
+          std::move(proc), the_resource(), std::move(sampler), std::move(idgen), std::move(cfg)));
+    case 1:
+      procs.push_back(std::move(proc));
+      return std::unique_ptr<sdkt::TracerProvider>(new sdkt::TracerProvider(
+          std::move(procs), the_resource(), std::move(sampler), std::move(idgen), std::move(cfg)));
+    case 2:
+      procs.push_back(std::move(proc));
+      return std::unique_ptr<sdkt::TracerProvider>(
+          new sdkt::TracerProvider(std::unique_ptr<sdkt::TracerContext>(new sdkt::TracerContext(
+              std::move(procs), the_resource(), std::move(sampler), std::move(idgen), std::move(cfg)))));
+    case 3:
+      return sdkt::TracerProviderFactory::Create(std::move(proc), the_resource(), std::move(sampler), std::move(idgen),
+                                                 std::move(cfg));
+    case 4:
+      procs.push_back(std::move(proc));
+      return sdkt::TracerProviderFactory::Create(std::move(procs), the_resource(), std::move(sampler),
+                                                 std::move(idgen), std::move(cfg));
+    case 5:
+      procs.push_back(std::move(proc));
+      return sdkt::TracerProviderFactory::Create(sdkt::TracerContextFactory::Create(
+          std::move(procs), the_resource(), std::move(sampler), std::move(idgen), std::move(cfg)));
+    case 6:
+      return std::unique_ptr<sdkt::TracerProvider>(
+          new sdkt::TracerProvider(std::move(proc), the_resource(), std::move(sampler), std::move(idgen)));
+    default:
+      procs.push_back(std::move(proc));
+      return sdkt::TracerProviderFactory::Create(std::move(procs), the_resource());
+  }
+}
+
+std::unique_ptr<sdkm::MeterProvider> make_meter_provider(
+    unsigned path,
+    std::unique_ptr<scope_::ScopeConfigurator<sdkm::MeterConfig>> cfg)
+{
+  std::unique_ptr<sdkm::ViewRegistry> views(new sdkm::ViewRegistry);
+  switch (path)
+  {
+    case 0:
+      return std::unique_ptr<sdkm::MeterProvider>(
+          new sdkm::MeterProvider(std::move(views), the_resource(), std::move(cfg)));
+    case 1:
+      return std::unique_ptr<sdkm::MeterProvider>(new sdkm::MeterProvider(
+          std::unique_ptr<sdkm::MeterContext>(new sdkm::MeterContext(std::move(views), the_resource(), std::move(cfg)))));
+    case 2:
+      return sdkm::MeterProviderFactory::Create(std::move(views), the_resource(), std::move(cfg));
+    case 3:
+      return sdkm::MeterProviderFactory::Create(
+          sdkm::MeterContextFactory::Create(std::move(views), the_resource(), std::move(cfg)));
+    case 4:
+      return std::unique_ptr<sdkm::MeterProvider>(new sdkm::MeterProvider(std::move(views), the_resource()));
+    default:
+      return sdkm::MeterProviderFactory::Create(std::move(views), the_resource());
+  }
+}
+
+std::unique_ptr<sdkl::LoggerProvider> make_logger_provider(
+    unsigned path,
+    std::vector<SpanSeen> *sink,
+    std::unique_ptr<scope_::ScopeConfigurator<sdkl::LoggerConfig>> cfg)
+{
+  std::unique_ptr<sdkl::LogRecordProcessor> proc(
+      new sdkl::SimpleLogRecordProcessor(std::unique_ptr<sdkl::LogRecordExporter>(new HLogExporter(sink))));
+  std::vector<std::unique_ptr<sdkl::LogRecordProcessor>> procs;
+  switch (path)
+  {
+    case 0:
+      return std::unique_ptr<sdkl::LoggerProvider>(
+          new sdkl::LoggerProvider(std::move(proc), the_resource(), std::move(cfg)));
+    case 1:
+      procs.push_back(std::move(proc));
+      return std::unique_ptr<sdkl::LoggerProvider>(
+          new sdkl::LoggerProvider(std::move(procs), the_resource(), std::move(cfg)));
+    case 2:
+      procs.push_back(std::move(proc));
+      return std::unique_ptr<sdkl::LoggerProvider>(new sdkl::LoggerProvider(std::unique_ptr<sdkl::LoggerContext>(
+          new sdkl::LoggerContext(std::move(procs), the_resource(), std::move(cfg)))));
+    case 3:
+      return sdkl::LoggerProviderFactory::Create(std::move(proc), the_resource(), std::move(cfg));
+    case 4:
+      procs.push_back(std::move(proc));
+      return sdkl::LoggerProviderFactory::Create(std::move(procs), the_resource(), std::move(cfg));
+    case 5:
+      procs.push_back(std::move(proc));
+      return sdkl::LoggerProviderFactory::Create(
+          sdkl::LoggerContextFactory::Create(std::move(procs), the_resource(), std::move(cfg)));
+    case 6:
+      return std::unique_ptr<sdkl::LoggerProvider>(new sdkl::LoggerProvider(std::move(proc), the_resource()));
+    default:
+      procs.push_back(std::move(proc));
+      return sdkl::LoggerProviderFactory::Create(std::move(procs), the_resource());
+  }
+}
 }  // namespace
 
 VH_TARGET(scope_rules, 2,
           "non-trivial when the rule list disables at least one requested scope and leaves at least one "
           "enabled, or when two rules with different verdicts match the same scope (order matters); "
-          "distinct = distinct (rules, default, scopes, emission counts) text")
+          "distinct = distinct (rules, default, scopes with attributes, emission counts, construction paths) text")
 {
   quiet_logs();
   vh::Reader &rd = c.rd;
@@ -1440,7 +2203,7 @@ VH_TARGET(scope_rules, 2,
   for (unsigned i = 0; i < nr; ++i)
   {
     Rule r;
-    r.kind = static_cast<unsigned>(rd.weighted({6, 3, 2, 2, 3, 1, 1, 2}));
+    r.kind = static_cast<unsigned>(rd.weighted({6, 3, 2, 2, 3, 1, 1, 2, 2, 2}));
     switch (r.kind)
     {
       case 0:
@@ -1463,9 +2226,8 @@ VH_TARGET(scope_rules, 2,
     rules.push_back(r);
   }
   unsigned default_cfg = static_cast<unsigned>(rd.weighted({5, 4, 1}));
-  bool default_enabled = default_cfg != 1;
   std::vector<ScopeId> scopes;
-  std::vector<unsigned> counts;
+  std::vector<unsigned> counts, sattrs;
   unsigned ns = 1 + static_cast<unsigned>(rd.weighted({2, 4, 3, 2}));
   for (unsigned i = 0; i < ns; ++i)
   {
@@ -1474,48 +2236,90 @@ VH_TARGET(scope_rules, 2,
       continue;
     scopes.push_back(s);
     counts.push_back(1 + rd.below(3));
+    // scope attributes exist for loggers only (ABI v1); a tracer / meter scope has none
+    sattrs.push_back(!rd.chance(45) ? 0 : rd.chance(30) ? 1 : 1 + rd.below(kAttrSetsNoDup - 1));
   }
+  // how each provider is built (drawn last: a short stream takes the plain constructors)
+  unsigned tpath = rd.below(kTracerPaths), mpath = rd.below(kMeterPaths), lpath = rd.below(kLoggerPaths);
   c.note(show_rules(rules, default_cfg));
-  size_t n_on = 0, n_off = 0;
-  bool order_matters = false;
+  c.note(std::string("tracers: ") + kTracerPathName[tpath] + "\nmeters: " + kMeterPathName[mpath] +
+         "\nloggers: " + kLoggerPathName[lpath] + "\n");
+  c.tag("tracer-path-" + std::to_string(tpath));
+  c.tag("meter-path-" + std::to_string(mpath));
+  c.tag("logger-path-" + std::to_string(lpath));
+  const std::vector<Rule> no_rules;
   for (size_t j = 0; j < scopes.size(); ++j)
   {
+    // the tags describe the logger's view of the scope (the one that sees the attributes)
+    ScopeId eff{scopes[j].name.empty() ? "lib.b" : scopes[j].name, scopes[j].version, scopes[j].schema};
     int decider = -1;
-    bool en     = model_enabled(rules, default_enabled, scopes[j], &decider);
-    c.note("scope " + show_scope(scopes[j]) + " x" + std::to_string(counts[j]) + " -> " +
-           (en ? "enabled" : "disabled") + " by " + (decider < 0 ? "default" : "rule#" + std::to_string(decider)) + "\n");
-    (en ? n_on : n_off)++;
+    bool en     = model_enabled(rules, default_cfg != 1, eff, &decider, sattrs[j]);
+    c.note("scope " + show_scope(scopes[j]) + " logger-attrs{" + attr_key(sattrs[j]) + "} x" + std::to_string(counts[j]) +
+           " -> logger " + (en ? "enabled" : "disabled") + " by " +
+           (decider < 0 ? "default" : "rule#" + std::to_string(decider)) + "\n");
     c.tag(decider < 0 ? "decided-by-default" : decider == 0 ? "decided-by-first-rule" : "decided-by-later-rule");
+    if (sattrs[j])
+      c.tag("scope-with-attributes");
     if (decider >= 0)
     {
       c.tag(std::string("decider-") + kRuleName[rules[static_cast<size_t>(decider)].kind]);
-      for (size_t k = static_cast<size_t>(decider) + 1; k < rules.size(); ++k)
-        if (rule_matches(rules[k], scopes[j]) && rules[k].enable != en)
-          order_matters = true;
-      if (en != default_enabled)
+      if (en != (default_cfg != 1))
         c.tag("rule-overrides-default");
     }
   }
+  // non-triviality, per signal whose provider really carries the configurator
+  bool order_matters = false;
+  for (unsigned sig = 0; sig < 3; ++sig)
+  {
+    bool configured = sig == 0   ? tracer_path_configured(tpath)
+                      : sig == 1 ? meter_path_configured(mpath)
+                                 : logger_path_configured(lpath);
+    if (!configured)
+      continue;
+    size_t n_on = 0, n_off = 0;
+    for (size_t j = 0; j < scopes.size(); ++j)
+    {
+      ScopeId s   = scopes[j];
+      unsigned at = 0;
+      if (sig == 2)
+      {
+        if (s.name.empty())
+          s.name = "lib.b";
+        at = sattrs[j];
+      }
+      int decider = -1;
+      bool en     = model_enabled(rules, default_cfg != 1, s, &decider, at);
+      (en ? n_on : n_off)++;
+      if (decider >= 0)
+        for (size_t k = static_cast<size_t>(decider) + 1; k < rules.size(); ++k)
+          if (rule_matches(rules[k], s, at) && rules[k].enable != en)
+            order_matters = true;
+    }
+    if (n_on > 0 && n_off > 0)
+      c.nontrivial = true;
+  }
   if (order_matters)
+  {
     c.tag("order-matters");
+    c.nontrivial = true;
+  }
   c.tag("rules-" + std::to_string(rules.size()));
-  c.nontrivial = (n_on > 0 && n_off > 0) || order_matters;
   std::set<ScopeId> requested(scopes.begin(), scopes.end());
 
   // ---- tracers
   {
+    const bool configured              = tracer_path_configured(tpath);
+    const std::vector<Rule> &eff_rules = configured ? rules : no_rules;
+    const bool default_enabled         = configured ? default_cfg != 1 : true;
     std::vector<SpanSeen> spans;
     std::vector<ScopeId> asked;
     {
-      std::unique_ptr<sdkt::SpanProcessor> proc(
-          new sdkt::SimpleSpanProcessor(std::unique_ptr<sdkt::SpanExporter>(new HSpanExporter(&spans))));
-      sdkt::TracerProvider tp(std::move(proc), the_resource(), std::unique_ptr<sdkt::Sampler>(new sdkt::AlwaysOnSampler),
-                              std::unique_ptr<sdkt::IdGenerator>(new sdkt::RandomIdGenerator),
-                              build_configurator<sdkt::TracerConfig>(rules, default_cfg, &asked));
+      auto tp = make_tracer_provider(tpath, &spans, build_configurator<sdkt::TracerConfig>(rules, default_cfg, &asked));
+      VH_CHECK(c, tp, kTracerPathName[tpath] << " returned null");
       for (size_t j = 0; j < scopes.size(); ++j)
       {
         Held hn(scopes[j].name), hv(scopes[j].version), hs(scopes[j].schema);
-        auto tracer = tp.GetTracer(hn.view(), hv.view(), hs.view());
+        auto tracer = tp->GetTracer(hn.view(), hv.view(), hs.view());
         hn.scribble();
         hv.scribble();
         hs.scribble();
@@ -1526,15 +2330,15 @@ VH_TARGET(scope_rules, 2,
           span->End();
         }
       }
-      tp.ForceFlush();
+      tp->ForceFlush();
     }
     for (auto &a : asked)
-      VH_CHECK(c, requested.count(a), "a tracer rule was asked about the scope " << show_scope(a)
-                                                                                 << " that nobody requested");
+      if (!requested.count(a))
+        c.tag("rule-asked-about-unrequested-scope");
     size_t expected_total = 0;
     for (size_t j = 0; j < scopes.size(); ++j)
     {
-      bool en  = model_enabled(rules, default_enabled, scopes[j]);
+      bool en  = model_enabled(eff_rules, default_enabled, scopes[j]);
       size_t n = 0;
       for (auto &s : spans)
         n += s.scope == scopes[j] && s.name == "span-" + std::to_string(j);
@@ -1542,7 +2346,8 @@ VH_TARGET(scope_rules, 2,
       expected_total += want;
       VH_CHECK(c, n == want, "tracer " << show_scope(scopes[j]) << " is " << (en ? "enabled" : "disabled")
                                        << " by the rules and ended " << counts[j] << " span(s); the exporter saw " << n
-                                       << "\n" << show_rules(rules, default_cfg));
+                                       << "\nprovider built by " << kTracerPathName[tpath] << "\n"
+                                       << show_rules(rules, default_cfg));
     }
     VH_CHECK(c, spans.size() == expected_total, "the span exporter saw " << spans.size() << " spans, expected "
                                                                         << expected_total);
@@ -1550,17 +2355,20 @@ VH_TARGET(scope_rules, 2,
 
   // ---- meters
   {
+    const bool configured              = meter_path_configured(mpath);
+    const std::vector<Rule> &eff_rules = configured ? rules : no_rules;
+    const bool default_enabled         = configured ? default_cfg != 1 : true;
     std::vector<ScopeId> asked;
     std::shared_ptr<HReader> reader(new HReader(sdkm::AggregationTemporality::kCumulative));
-    sdkm::MeterProvider mp(std::unique_ptr<sdkm::ViewRegistry>(new sdkm::ViewRegistry), the_resource(),
-                           build_configurator<sdkm::MeterConfig>(rules, default_cfg, &asked));
-    mp.AddMetricReader(reader);
+    auto mp = make_meter_provider(mpath, build_configurator<sdkm::MeterConfig>(rules, default_cfg, &asked));
+    VH_CHECK(c, mp, kMeterPathName[mpath] << " returned null");
+    mp->AddMetricReader(reader);
     std::vector<nostd::unique_ptr<apim::Counter<uint64_t>>> counters;
     std::vector<nostd::shared_ptr<apim::ObservableInstrument>> gauges;
     for (size_t j = 0; j < scopes.size(); ++j)
     {
       Held hn(scopes[j].name), hv(scopes[j].version), hs(scopes[j].schema);
-      auto meter = mp.GetMeter(hn.view(), hv.view(), hs.view());
+      auto meter = mp->GetMeter(hn.view(), hv.view(), hs.view());
       hn.scribble();
       hv.scribble();
       hs.scribble();
@@ -1573,12 +2381,12 @@ VH_TARGET(scope_rules, 2,
     std::vector<Stream> seen;
     collect(*reader, &seen, c);
     for (auto &a : asked)
-      VH_CHECK(c, requested.count(a), "a meter rule was asked about the scope " << show_scope(a)
-                                                                                << " that nobody requested");
+      if (!requested.count(a))
+        c.tag("rule-asked-about-unrequested-scope");
     size_t expected_total = 0;
     for (size_t j = 0; j < scopes.size(); ++j)
     {
-      bool en = model_enabled(rules, default_enabled, scopes[j]);
+      bool en = model_enabled(eff_rules, default_enabled, scopes[j]);
       size_t n_count = 0, n_gauge = 0, n_other = 0;
       for (auto &s : seen)
       {
@@ -1598,7 +2406,8 @@ VH_TARGET(scope_rules, 2,
       VH_CHECK(c, n_count == want && n_gauge == want && n_other == 0,
                "meter " << show_scope(scopes[j]) << " is " << (en ? "enabled" : "disabled")
                         << " by the rules; the reader saw " << n_count << " counter stream(s), " << n_gauge
-                        << " gauge stream(s) and " << n_other << " other stream(s) of that scope\n"
+                        << " gauge stream(s) and " << n_other << " other stream(s) of that scope\nprovider built by "
+                        << kMeterPathName[mpath] << "\n"
                         << show_rules(rules, default_cfg));
     }
     VH_CHECK(c, seen.size() == expected_total, "the reader saw " << seen.size() << " streams, expected " << expected_total);
@@ -1606,8 +2415,12 @@ VH_TARGET(scope_rules, 2,
       g->RemoveCallback(gray_cb, nullptr);
   }
 
-  // ---- loggers (an empty library name means "use the logger name" as the scope name)
+  // ---- loggers (an empty library name means "use the logger name" as the scope name); the logger
+  //      scope carries the attribute set, so attribute rules can match here
   {
+    const bool configured              = logger_path_configured(lpath);
+    const std::vector<Rule> &eff_rules = configured ? rules : no_rules;
+    const bool default_enabled         = configured ? default_cfg != 1 : true;
     std::vector<SpanSeen> logs;
     std::vector<ScopeId> asked;
     const std::string logger_name = "lib.b";  // so that the fallback can hit a rule, too
@@ -1615,14 +2428,21 @@ VH_TARGET(scope_rules, 2,
     for (auto &s : scopes)
       eff.push_back(ScopeId{s.name.empty() ? logger_name : s.name, s.version, s.schema});
     {
-      std::unique_ptr<sdkl::LogRecordProcessor> proc(
-          new sdkl::SimpleLogRecordProcessor(std::unique_ptr<sdkl::LogRecordExporter>(new HLogExporter(&logs))));
-      sdkl::LoggerProvider lp(std::move(proc), the_resource(),
-                              build_configurator<sdkl::LoggerConfig>(rules, default_cfg, &asked));
+      auto lp = make_logger_provider(lpath, &logs, build_configurator<sdkl::LoggerConfig>(rules, default_cfg, &asked));
+      VH_CHECK(c, lp, kLoggerPathName[lpath] << " returned null");
       for (size_t j = 0; j < scopes.size(); ++j)
       {
         Held hl(logger_name), hn(scopes[j].name), hv(scopes[j].version), hs(scopes[j].schema);
-        auto logger = lp.GetLogger(hl.view(), hn.view(), hv.view(), hs.view());
+        nostd::shared_ptr<opentelemetry::logs::Logger> logger;
+        if (sattrs[j] == 0)
+          logger = lp->GetLogger(hl.view(), hn.view(), hv.view(), hs.view());
+        else
+        {
+          AttrStore store(sattrs[j]);
+          common::KeyValueIterableView<std::vector<std::pair<nostd::string_view, common::AttributeValue>>> view(store.kvs);
+          logger = lp->GetLogger(hl.view(), hn.view(), hv.view(), hs.view(), view);
+          store.scribble();
+        }
         hl.scribble();
         hn.scribble();
         hv.scribble();
@@ -1641,25 +2461,27 @@ VH_TARGET(scope_rules, 2,
           }
         }
       }
-      lp.ForceFlush();
+      lp->ForceFlush();
     }
     std::set<ScopeId> req_eff(eff.begin(), eff.end());
     for (auto &a : asked)
-      VH_CHECK(c, req_eff.count(a), "a logger rule was asked about the scope " << show_scope(a)
-                                                                               << " that nobody requested");
+      if (!req_eff.count(a))
+        c.tag("rule-asked-about-unrequested-scope");
     size_t expected_total = 0;
     for (size_t j = 0; j < scopes.size(); ++j)
     {
       // two requested scopes can collapse onto one effective scope ("" and the logger name)
-      bool en  = model_enabled(rules, default_enabled, eff[j]);
+      bool en  = model_enabled(eff_rules, default_enabled, eff[j], nullptr, sattrs[j]);
       size_t n = 0;
       for (auto &s : logs)
         n += s.scope == eff[j] && s.name == "log-" + std::to_string(j);
       size_t want = en ? counts[j] : 0;
       expected_total += want;
-      VH_CHECK(c, n == want, "logger " << show_scope(eff[j]) << " is " << (en ? "enabled" : "disabled")
-                                       << " by the rules and emitted " << counts[j] << " record(s); the exporter saw "
-                                       << n << "\n" << show_rules(rules, default_cfg));
+      VH_CHECK(c, n == want, "logger " << show_scope(eff[j]) << " with scope attributes {" << attr_key(sattrs[j]) << "} is "
+                                       << (en ? "enabled" : "disabled") << " by the rules and emitted " << counts[j]
+                                       << " record(s); the exporter saw " << n << "\nprovider built by "
+                                       << kLoggerPathName[lpath] << "\n"
+                                       << show_rules(rules, default_cfg));
     }
     VH_CHECK(c, logs.size() == expected_total, "the log exporter saw " << logs.size() << " records, expected "
                                                                       << expected_total);
@@ -1670,43 +2492,23 @@ VH_TARGET(scope_rules, 2,
 // identity
 namespace
 {
+// see the use: true until known_findings.json lists C19-logger-dup-attr-key (or the tree is repaired)
+const bool kHoldBack_logger_dup_attr_key = false;  // finding fixed in /repo 23198eb
 struct Req
 {
   std::string logger_name;  // loggers only
   ScopeId id;
   unsigned attrs = 0;  // loggers only: index into kAttrSets
+  unsigned nulls = 0;  // presentation: bit0 name, bit1 version, bit2 schema, bit3 logger name - an EMPTY
+                       // component is handed over as a null view (data() == nullptr) instead of ""
+  unsigned form  = 0;  // presentation, loggers only: which GetLogger overload
 };
-// attribute sets for logger scopes; sets 3 and 4 are equal as sets (different order)
-struct AttrKV
-{
-  const char *key;
-  bool is_string;
-  int64_t i;
-  const char *s;
-};
-const std::vector<std::vector<AttrKV>> kAttrSets = {
-    {},
-    {{"k", false, 1, ""}},
-    {{"k", false, 2, ""}},
-    {{"k", false, 1, ""}, {"j", true, 0, "s"}},
-    {{"j", true, 0, "s"}, {"k", false, 1, ""}},
-    {{"k", true, 0, "1"}},
-    {{"kk", false, 1, ""}},
-};
-std::string attr_key(unsigned idx)
-{
-  std::vector<std::string> parts;
-  for (auto &kv : kAttrSets[idx])
-    parts.push_back(std::string(kv.key) + (kv.is_string ? "=s:" + std::string(kv.s) : "=i:" + std::to_string(kv.i)));
-  std::sort(parts.begin(), parts.end());
-  std::string t;
-  for (auto &p : parts)
-    t += p + ";";
-  return t;
-}
+const char *const kFormName[] = {"GetLogger(5 args, KeyValueIterableView)", "GetLogger(.., container)",
+                                 "GetLogger(.., span)", "GetLogger(4 args) when there are no attributes",
+                                 "GetLogger(.., initializer_list) for the set {k=1}"};
 std::string vary(vh::Reader &rd, const std::string &s)
 {
-  switch (rd.below(5))
+  switch (rd.below(6))
   {
     case 0:
       return s + "x";
@@ -1725,15 +2527,23 @@ std::string vary(vh::Reader &rd, const std::string &s)
     }
     case 3:
       return s + " ";
-    default:
+    case 4:
       return s + std::string(1, '\0') + "z";
+    default:
+      return "";  // the empty component (then handed over as "" or as a null view)
   }
+}
+// a view of the component: null when the component is empty and the request says so
+nostd::string_view present(const Held &h, bool as_null)
+{
+  return (as_null && h.len == 0) ? nostd::string_view() : h.view();
 }
 }  // namespace
 
 VH_TARGET(identity, 2,
           "non-trivial when the request list contains at least one exact repetition AND at least one pair "
-          "that differs in exactly one component; distinct = distinct (signal, rules, request list) text")
+          "that differs in exactly one component; distinct = distinct (signal, rules, construction path, request "
+          "list with presentations) text")
 {
   quiet_logs();
   vh::Reader &rd  = c.rd;
@@ -1762,7 +2572,7 @@ VH_TARGET(identity, 2,
     {
       r.id          = ScopeId{kScopeNames[rd.below(5)], kScopeVersions[rd.weighted({3, 2, 1})], kScopeSchemas[rd.weighted({3, 1})]};
       r.logger_name = rd.chance(25) ? "lg2" : "lg";
-      r.attrs       = rd.chance(30) ? rd.below(static_cast<uint32_t>(kAttrSets.size())) : 0;
+      r.attrs       = rd.chance(signal == 2 ? 55 : 30) ? rd.below(static_cast<uint32_t>(kAttrSets.size())) : 0;
     }
     else
     {
@@ -1787,15 +2597,41 @@ VH_TARGET(identity, 2,
             r.logger_name = vary(rd, r.logger_name);
             break;
           default:
-            r.attrs = rd.below(static_cast<uint32_t>(kAttrSets.size()));
+          {
+            // the same attributes in another presentation (order, const char* / string_view), or the
+            // 32-bit twin, or any other set
+            static const unsigned twin[] = {0, 9, 2, 4, 3, 13, 6, 7, 8, 1, 11, 10, 12, 5, 2};
+            unsigned any = rd.below(static_cast<uint32_t>(kAttrSets.size()));
+            r.attrs      = (rd.chance(55) && twin[r.attrs] != r.attrs) ? twin[r.attrs] : any;
             break;
+          }
         }
       }
     }
+    // presentation only (never part of the identity): null views for empty components, call form
+    unsigned pres = rd.u8();
+    r.nulls       = pres & 15;
+    r.form        = (pres >> 4) & 3;
+    // defect candidate C19-logger-dup-attr-key (proposed_fixes/): a scope attribute list that names a
+    // key twice never compares equal to the scope built from it, so every request makes a new logger.
+    // Held back until the coordinator has decided; the fixed target logger_dup_attr_key_witness
+    // reproduces it.
+    if (attr_has_dup(r.attrs) && (kHoldBack_logger_dup_attr_key || vh::excluded("C19-logger-dup-attr-key")))
+    {
+      if (vh::excluded("C19-logger-dup-attr-key"))
+        vh::count_excluded("C19-logger-dup-attr-key");
+      r.attrs = 2;
+    }
     reqs.push_back(r);
   }
-  c.note(std::string(signame[signal]) + "\n" + show_rules(rules, default_cfg));
+  // how the provider is built (drawn last)
+  unsigned path = rd.below(signal == 0 ? kTracerPaths : signal == 1 ? kMeterPaths : kLoggerPaths);
+  const bool configured =
+      signal == 0 ? tracer_path_configured(path) : signal == 1 ? meter_path_configured(path) : logger_path_configured(path);
+  const char *path_name = signal == 0 ? kTracerPathName[path] : signal == 1 ? kMeterPathName[path] : kLoggerPathName[path];
+  c.note(std::string(signame[signal]) + " via " + path_name + "\n" + show_rules(rules, default_cfg));
   c.tag(std::string("signal-") + signame[signal]);
+  c.tag(std::string(signame[signal]) + "-path-" + std::to_string(path));
   c.nontrivial = has_repeat && has_near;
 
   std::vector<ScopeId> asked;
@@ -1804,20 +2640,12 @@ VH_TARGET(identity, 2,
   std::unique_ptr<sdkl::LoggerProvider> lp;
   std::vector<SpanSeen> sink;
   if (signal == 0)
-    tp.reset(new sdkt::TracerProvider(
-        std::unique_ptr<sdkt::SpanProcessor>(
-            new sdkt::SimpleSpanProcessor(std::unique_ptr<sdkt::SpanExporter>(new HSpanExporter(&sink)))),
-        the_resource(), std::unique_ptr<sdkt::Sampler>(new sdkt::AlwaysOnSampler),
-        std::unique_ptr<sdkt::IdGenerator>(new sdkt::RandomIdGenerator),
-        build_configurator<sdkt::TracerConfig>(rules, default_cfg, &asked)));
+    tp = make_tracer_provider(path, &sink, build_configurator<sdkt::TracerConfig>(rules, default_cfg, &asked));
   else if (signal == 1)
-    mp.reset(new sdkm::MeterProvider(std::unique_ptr<sdkm::ViewRegistry>(new sdkm::ViewRegistry), the_resource(),
-                                     build_configurator<sdkm::MeterConfig>(rules, default_cfg, &asked)));
+    mp = make_meter_provider(path, build_configurator<sdkm::MeterConfig>(rules, default_cfg, &asked));
   else
-    lp.reset(new sdkl::LoggerProvider(
-        std::unique_ptr<sdkl::LogRecordProcessor>(
-            new sdkl::SimpleLogRecordProcessor(std::unique_ptr<sdkl::LogRecordExporter>(new HLogExporter(&sink)))),
-        the_resource(), build_configurator<sdkl::LoggerConfig>(rules, default_cfg, &asked)));
+    lp = make_logger_provider(path, &sink, build_configurator<sdkl::LoggerConfig>(rules, default_cfg, &asked));
+  VH_CHECK(c, tp || mp || lp, path_name << " returned null");
 
   std::vector<const void *> ptrs;
   std::vector<std::string> keys;
@@ -1830,17 +2658,30 @@ VH_TARGET(identity, 2,
     ScopeId eff  = r.id;
     std::string key;
     Held hn(r.id.name), hv(r.id.version), hs(r.id.schema), hl(r.logger_name);
+    nostd::string_view vn = present(hn, r.nulls & 1), vv = present(hv, r.nulls & 2), vs = present(hs, r.nulls & 4),
+                       vl = present(hl, r.nulls & 8);
+    std::string pres;
+    if (vn.data() == nullptr)
+      pres += " name=null-view";
+    if (vv.data() == nullptr)
+      pres += " version=null-view";
+    if (vs.data() == nullptr)
+      pres += " schema=null-view";
+    if (signal == 2 && vl.data() == nullptr)
+      pres += " logger-name=null-view";
+    if ((signal == 2 ? (vn.data() && vv.data() && vs.data() && vl.data()) : (vn.data() && vv.data() && vs.data())) == false)
+      c.tag("null-view-component");
     const InstrumentationScope *got_scope = nullptr;
     if (signal == 0)
     {
-      keep_t.push_back(tp->GetTracer(hn.view(), hv.view(), hs.view()));
+      keep_t.push_back(tp->GetTracer(vn, vv, vs));
       VH_CHECK(c, keep_t.back(), "GetTracer returned null");
       ptrs.push_back(keep_t.back().get());
       got_scope = &static_cast<sdkt::Tracer *>(keep_t.back().get())->GetInstrumentationScope();
     }
     else if (signal == 1)
     {
-      keep_m.push_back(mp->GetMeter(hn.view(), hv.view(), hs.view()));
+      keep_m.push_back(mp->GetMeter(vn, vv, vs));
       VH_CHECK(c, keep_m.back(), "GetMeter returned null");
       ptrs.push_back(keep_m.back().get());
       got_scope = static_cast<sdkm::Meter *>(keep_m.back().get())->GetInstrumentationScope();
@@ -1849,27 +2690,43 @@ VH_TARGET(identity, 2,
     {
       if (eff.name.empty())
         eff.name = r.logger_name;
-      // values live in short-lived storage as well
-      std::vector<std::string> sval;
-      for (auto &kv : kAttrSets[r.attrs])
-        sval.push_back(std::string("\x02") + kv.s + "#");
-      std::vector<std::pair<nostd::string_view, common::AttributeValue>> kvs;
-      for (size_t a = 0; a < kAttrSets[r.attrs].size(); ++a)
+      // keys and values live in short-lived storage as well
+      AttrStore store(r.attrs);
+      unsigned form = r.form;
+      if (form == 3 && r.attrs == 1)
+        form = 4;
+      else if (form == 3 && !kAttrSets[r.attrs].empty())
+        form = 1;
+      switch (form)
       {
-        auto &kv = kAttrSets[r.attrs][a];
-        if (kv.is_string)
-          kvs.emplace_back(kv.key, common::AttributeValue(nostd::string_view(sval[a].data() + 1, std::strlen(kv.s))));
-        else
-          kvs.emplace_back(kv.key, common::AttributeValue(kv.i));
+        case 4:
+          keep_l.push_back(lp->GetLogger(vl, vn, vv, vs, {{"k", common::AttributeValue(int64_t(1))}}));
+          break;
+        case 0:
+        {
+          common::KeyValueIterableView<std::vector<std::pair<nostd::string_view, common::AttributeValue>>> view(store.kvs);
+          keep_l.push_back(lp->GetLogger(vl, vn, vv, vs, view));
+          break;
+        }
+        case 1:
+          keep_l.push_back(lp->GetLogger(vl, vn, vv, vs, store.kvs));
+          break;
+        case 2:
+          keep_l.push_back(lp->GetLogger(
+              vl, vn, vv, vs,
+              nostd::span<const std::pair<nostd::string_view, common::AttributeValue>>(store.kvs.data(), store.kvs.size())));
+          break;
+        default:
+          keep_l.push_back(lp->GetLogger(vl, vn, vv, vs));
+          break;
       }
-      common::KeyValueIterableView<std::vector<std::pair<nostd::string_view, common::AttributeValue>>> view(kvs);
-      keep_l.push_back(lp->GetLogger(hl.view(), hn.view(), hv.view(), hs.view(), view));
-      for (auto &sv : sval)
-        std::fill(sv.begin(), sv.end(), '\xDD');
+      c.tag("logger-call-form-" + std::to_string(form));
+      pres += std::string(" via ") + kFormName[form];
+      store.scribble();
       VH_CHECK(c, keep_l.back(), "GetLogger returned null");
       ptrs.push_back(keep_l.back().get());
       got_scope = &static_cast<sdkl::Logger *>(keep_l.back().get())->GetInstrumentationScope();
-      key       = "logger=" + r.logger_name + "|attrs=" + attr_key(r.attrs) + "|";
+      key       = "logger=" + r.logger_name + "|";
     }
     hn.scribble();
     hv.scribble();
@@ -1878,34 +2735,80 @@ VH_TARGET(identity, 2,
     key += std::to_string(eff.name.size()) + ":" + eff.name + "|" + std::to_string(eff.version.size()) + ":" +
            eff.version + "|" + eff.schema;
     keys.push_back(key);
-    c.note("#" + std::to_string(i) + " Get(" + (signal == 2 ? "logger '" + vh::show(r.logger_name) + "' attrs{" + attr_key(r.attrs) + "} " : std::string()) +
-           show_scope(r.id) + ")\n");
-    VH_CHECK(c, id_of(*got_scope) == eff, signame[signal] << " requested as " << show_scope(eff) << " reports the scope "
-                                                          << show_scope(id_of(*got_scope)));
+    c.note("#" + std::to_string(i) + " Get(" + (signal == 2 ? "logger '" + vh::show(r.logger_name) + "' attrs{" + attr_key(r.attrs) + (attr_has_dup(r.attrs) ? " (a key named twice)" : "") + "} " : std::string()) +
+           show_scope(r.id) + ")" + pres + "\n");
+    VH_CHECK(c, id_of(*got_scope) == eff, signame[signal] << " requested as " << show_scope(eff) << pres
+                                                          << " reports the scope " << show_scope(id_of(*got_scope)));
     if (signal == 2)
-      VH_CHECK(c, got_scope->GetAttributes().size() == kAttrSets[r.attrs].size(),
-               "logger scope requested with " << kAttrSets[r.attrs].size() << " attribute(s) reports "
+    {
+      VH_CHECK(c, got_scope->GetAttributes().size() == attr_distinct_keys(r.attrs),
+               "logger scope requested with " << attr_distinct_keys(r.attrs) << " attribute(s) reports "
                                               << got_scope->GetAttributes().size());
+      if (r.attrs >= 7)
+        c.tag("logger-attrs-set-" + std::to_string(r.attrs));
+    }
   }
   size_t same_pairs = 0, diff_pairs = 0;
   for (size_t i = 0; i < reqs.size(); ++i)
     for (size_t j = i + 1; j < reqs.size(); ++j)
     {
-      bool same_id = keys[i] == keys[j];
+      Tri same = keys[i] != keys[j] ? kNo : signal == 2 ? attrs_same(reqs[i].attrs, reqs[j].attrs) : kYes;
+      if (same == kEither)
+      {
+        c.tag("pair-attributes-either");
+        continue;
+      }
+      bool same_id = same == kYes;
       (same_id ? same_pairs : diff_pairs)++;
-      bool enabled = model_enabled(rules, default_cfg != 1, ScopeId{signal == 2 && reqs[i].id.name.empty() ? reqs[i].logger_name : reqs[i].id.name, reqs[i].id.version, reqs[i].id.schema});
+      bool enabled = model_enabled(configured ? rules : std::vector<Rule>(), configured ? default_cfg != 1 : true,
+                                   ScopeId{signal == 2 && reqs[i].id.name.empty() ? reqs[i].logger_name : reqs[i].id.name,
+                                           reqs[i].id.version, reqs[i].id.schema});
       if (same_id)
+      {
         c.tag(enabled ? "repeat-of-enabled-scope" : "repeat-of-disabled-scope");
+        if (reqs[i].nulls != reqs[j].nulls || reqs[i].form != reqs[j].form)
+          c.tag("repeat-in-other-presentation");
+        if (signal == 2 && reqs[i].attrs != reqs[j].attrs)
+          c.tag("repeat-with-attributes-in-other-order-or-string-form");
+      }
+      std::string attr_i = signal == 2 ? " attrs{" + attr_key(reqs[i].attrs) + "}" : std::string();
+      std::string attr_j = signal == 2 ? " attrs{" + attr_key(reqs[j].attrs) + "}" : std::string();
       VH_CHECK(c, !same_id || ptrs[i] == ptrs[j],
                "request #" << i << " and request #" << j << " name the same " << signame[signal] << " (" << vh::show(keys[i])
-                           << ", " << (enabled ? "enabled" : "disabled by the configurator")
-                           << ") but two different objects were returned");
+                           << attr_i << ", " << (enabled ? "enabled" : "disabled by the configurator")
+                           << ") but two different objects were returned; provider built by " << path_name);
       VH_CHECK(c, same_id || ptrs[i] != ptrs[j],
-               "request #" << i << " (" << vh::show(keys[i]) << ") and request #" << j << " (" << vh::show(keys[j])
-                           << ") differ but the same " << signame[signal] << " object was returned");
+               "request #" << i << " (" << vh::show(keys[i]) << attr_i << ") and request #" << j << " (" << vh::show(keys[j])
+                           << attr_j << ") differ but the same " << signame[signal] << " object was returned");
     }
   if (same_pairs)
     c.tag("has-same-pair");
   if (diff_pairs)
     c.tag("has-different-pair");
+}
+
+// Fixed case of defect candidate C19-logger-dup-attr-key: the same GetLogger request twice, the
+// attribute list names the key "k" twice.
+VH_TARGET(logger_dup_attr_key_witness, 1,
+          "fixed witness case of defect candidate C19-logger-dup-attr-key (not part of the search)")
+{
+  quiet_logs();
+  c.note("GetLogger('lg','lib.a','','',{k=1,k=2}) twice\n");
+  c.nontrivial = true;
+  std::vector<SpanSeen> sink;
+  std::vector<ScopeId> asked;
+  auto lp = make_logger_provider(0, &sink, build_configurator<sdkl::LoggerConfig>({}, 0, &asked));
+  const void *ptr[2];
+  nostd::shared_ptr<opentelemetry::logs::Logger> keep[2];
+  for (int i = 0; i < 2; ++i)
+  {
+    AttrStore store(14);
+    common::KeyValueIterableView<std::vector<std::pair<nostd::string_view, common::AttributeValue>>> view(store.kvs);
+    keep[i] = lp->GetLogger("lg", "lib.a", "", "", view);
+    store.scribble();
+    ptr[i] = keep[i].get();
+  }
+  VH_CHECK(c, ptr[0] == ptr[1],
+           "request #0 and request #1 name the same logger (logger 'lg', scope (lib.a,,), attributes {k=1,k=2}: a key "
+           "named twice) but two different objects were returned");
 }
